@@ -10,9 +10,13 @@ type-checked against the table on the way (so a swapped argument, a changed oper
 statement either changes the generated Lean or is rejected).  ANY construct outside the table raises
 `Untranslatable` with the source location (exit code 3).  Nothing is guessed.
 
-Usage: py2lean2.py <repo_root> <out_dir>     writes <out_dir>/Loops.lean, prints a JSON summary.
+Usage: py2lean2.py <repo_root> <out_dir>     writes <out_dir>/Loops.lean (stage 2: loop helpers) and
+                                             <out_dir>/Loops2.lean (stage 3: suffix filter, filter_pair,
+                                             find_candidates, index builders, per-chunk join / filter workers,
+                                             missing-value pairs), prints a JSON summary.
        exit 0 = ok, 2 = usage, 3 = construct outside the accepted subset / missing source.
 The output is a pure function of the sources: regenerating from unchanged sources is byte-identical.
+Proof obligations: SSJ/Proofs/GenLoops.lean and SSJ/Proofs/GenLoops2.lean (`lake build SSJ.Proofs.GenLoops2`).
 """
 import ast
 import hashlib
@@ -47,10 +51,22 @@ def P(a, b):
     return ('Prod', a, b)
 
 
+def T(*ts):
+    """n-ary tuple = right-nested pairs"""
+    return ts[0] if len(ts) == 1 else P(ts[0], T(*ts[1:]))
+
+
+def Fn(args, ret):
+    return ('Fn', tuple(args), ret)
+
+
 def lean_type(t, top=True):
     if isinstance(t, str):
         return t
     k = t[0]
+    if k == 'Fn':
+        s = ' → '.join([lean_type(a, False) for a in t[1]] + [lean_type(t[2], False)])
+        return s if top else '(%s)' % s
     if k == 'List':
         s = 'List %s' % lean_type(t[1], False)
     elif k == 'Option':
@@ -59,6 +75,8 @@ def lean_type(t, top=True):
         s = 'List (%s × %s)' % (lean_type(t[1]), lean_type(t[2]))
     elif k == 'Prod':
         s = '%s × %s' % (lean_type(t[1], False), lean_type(t[2], False))
+    elif k == 'Set':            # a Python set, only ever measured with len: a duplicate-free list
+        s = 'List %s' % lean_type(t[1], False)
     else:
         raise AssertionError(t)
     return s if top else '(%s)' % s
@@ -67,8 +85,10 @@ def lean_type(t, top=True):
 def default_of(t):
     """value used for hoisted declarations and narrowed `Option.getD` (never observable when the
     Python program does not raise: see NOTES.md)"""
-    if t in ('Nat', 'Int'):
+    if t in ('Nat', 'Int', 'Rat'):
         return '0'
+    if t in ('τ', 'NumTok'):
+        return 'default'
     if t == 'Bool':
         return 'false'
     if t == 'String':
@@ -78,7 +98,7 @@ def default_of(t):
     if t == 'Row':
         return '[]'
     if isinstance(t, tuple):
-        if t[0] in ('List', 'Dict'):
+        if t[0] in ('List', 'Dict', 'Set'):
             return '[]'
         if t[0] == 'Option':
             return 'none'
@@ -98,12 +118,23 @@ def elem_type(t):
 
 
 def is_mutable_type(t):
-    return t == 'Row' or (isinstance(t, tuple) and t[0] in ('List', 'Dict'))
+    return t == 'Row' or (isinstance(t, tuple) and t[0] in ('List', 'Dict', 'Set'))
 
 
 # record attributes:  (record type, python attribute) -> (lean projection, type)
 ATTRS = {
+    ('SizeIndex', 'index'): ('index', D('Nat', L('Nat'))),
+    ('SizeIndex', 'min_length'): ('minLength', 'Int'),
+    ('SizeIndex', 'max_length'): ('maxLength', 'Int'),
+    ('PrefIndex', 'index'): ('index', D('Nat', L('Nat'))),
+    ('FilterObj', 'allow_missing'): ('allowMissing', 'Bool'),
+    ('FilterObj', 'allow_empty'): ('allowEmpty', 'Bool'),
+    ('FilterObj', 'sim_measure_type'): ('cfg.measure', 'Measure'),
+    ('OverlapFilterObj', 'allow_missing'): ('allowMissing', 'Bool'),
+    ('OverlapFilterObj', 'comp_op'): ('compOp', 'String'),
+    ('OverlapFilterObj', 'overlap_size'): ('overlapSize', 'PyV'),
     ('InvIndex', 'index'): ('index', D('String', L('Nat'))),
+    ('InvIndex', 'size_cache'): ('sizeCache', L('Nat')),
     ('PosIndex', 'index'): ('index', D('Nat', L(P('Nat', 'Nat')))),
     ('PosIndex', 'size_cache'): ('sizeCache', L('Nat')),
     ('PosIndex', 'min_length'): ('minLength', 'Int'),
@@ -114,6 +145,13 @@ ATTRS = {
 #                                            lean template, arg types, result type)
 # The translator re-parses the method and insists its body is exactly the expected one-liner.
 METHODS = {
+    # the size index is keyed by token counts (Nat); `find_candidates` probes it with ints that may be negative
+    ('SizeIndex', 'probe'): ('py_stringsimjoin/index/size_index.py', 'SizeIndex',
+                             'return self.index.get(num_tokens, [])',
+                             'if {0} < 0 then [] else probe {recv}.index ({0}).toNat', ['Int'], L('Nat')),
+    ('PrefIndex', 'probe'): ('py_stringsimjoin/index/prefix_index.py', 'PrefixIndex',
+                             'return self.index.get(token, [])',
+                             'probe {recv}.index {0}', ['Nat'], L('Nat')),
     ('InvIndex', 'probe'): ('py_stringsimjoin/index/inverted_index.py', 'InvertedIndex',
                             'return self.index.get(token, [])',
                             'probe {recv}.index {0}', ['String'], L('Nat')),
@@ -134,12 +172,89 @@ CFG_CALLS = {
 
 # fields of the record a function may return:  record -> [(lean field, type)]
 RECORD_FIELDS = {
+    'SizeIndex': [('index', D('Nat', L('Nat'))), ('minLength', 'Int'), ('maxLength', 'Int'),
+                  ('emptyRecords', L('Nat'))],
+    'PrefIndex': [('index', D('Nat', L('Nat'))), ('emptyRecords', L('Nat'))],
+    'InvIndex': [('index', D('String', L('Nat'))), ('sizeCache', L('Nat')), ('emptyRecords', L('Nat'))],
     'PosIndex': [('index', D('Nat', L(P('Nat', 'Nat')))), ('sizeCache', L('Nat')), ('minLength', 'Int'),
                  ('maxLength', 'Int'), ('cachedTokens', L(L('Nat'))), ('emptyRecords', L('Nat'))],
 }
 
+# classes whose objects the join / filter workers construct.  `ctor`: constructor parameters (name, kind) where
+# kind is a type, or TOK / MEASURE / THRESHOLD (the three values that together are the `FCfg` of the worker:
+# the argument must be literally the worker's tokenizer / measure / threshold source), or ('const', src).
+# `build`: the generated builder; `pre` = its leading arguments (the FCfg and the row view of the table).
+VIEW_ORDERED = ('(List.map (fun row => order_using_token_ordering (tok (Row.cell row {index_attr}).strVal) '
+                '{token_ordering}) {table})')
+CLASSES = {
+    'PositionIndex': dict(
+        file='py_stringsimjoin/index/position_index.py', module='py_stringsimjoin.index.position_index',
+        ctor=[('table', L('Row')), ('index_attr', 'Nat'), ('tokenizer', 'TOK'), ('sim_measure_type', 'MEASURE'),
+              ('threshold', 'THRESHOLD'), ('token_ordering', D('String', 'Nat'))],
+        record='PosIndex',
+        build=dict(lean='PositionIndex_build', pre=['{cfg}', VIEW_ORDERED],
+                   params=[('cache_empty_records', 'Bool', 'true'), ('cache_tokens', 'Bool', 'false')]),
+        keys={'empty_records': 'emptyRecords', 'cached_tokens': 'cachedTokens'}),
+    'PrefixIndex': dict(
+        file='py_stringsimjoin/index/prefix_index.py', module='py_stringsimjoin.index.prefix_index',
+        ctor=[('table', L('Row')), ('index_attr', 'Nat'), ('tokenizer', 'TOK'), ('sim_measure_type', 'MEASURE'),
+              ('threshold', 'THRESHOLD'), ('token_ordering', D('String', 'Nat'))],
+        record='PrefIndex',
+        build=dict(lean='PrefixIndex_build', pre=['{cfg}', VIEW_ORDERED],
+                   params=[('cache_empty_records', 'Bool', 'true')]),
+        keys={'empty_records': 'emptyRecords'}),
+    'SizeIndex': dict(
+        file='py_stringsimjoin/index/size_index.py', module='py_stringsimjoin.index.size_index',
+        ctor=[('table', L('Row')), ('index_attr', 'Nat'), ('tokenizer', 'TOK')],
+        record='SizeIndex',
+        build=dict(lean='SizeIndex_build',
+                   pre=['(List.map (fun row => (tok (Row.cell row {index_attr}).strVal).length) {table})'],
+                   params=[('cache_empty_records', 'Bool', 'true')]),
+        keys={'empty_records': 'emptyRecords'}),
+    'InvertedIndex': dict(
+        file='py_stringsimjoin/index/inverted_index.py', module='py_stringsimjoin.index.inverted_index',
+        ctor=[('table', L('Row')), ('index_attr', 'Nat'), ('tokenizer', 'TOK'), ('cache_size_flag', 'Bool', 'false')],
+        record='InvIndex',
+        build=dict(lean='InvertedIndex_build',
+                   pre=['(List.map (fun row => tok (Row.cell row {index_attr}).strVal) {table})', '{cache_size_flag}'],
+                   params=[('cache_empty_records', 'Bool', 'true')]),
+        keys={'empty_records': 'emptyRecords'}),
+    # filter objects built inside a join: only their find_candidates is used
+    'PositionFilter': dict(
+        file='py_stringsimjoin/filter/position_filter.py', module='py_stringsimjoin.filter.position_filter',
+        ctor=[('tokenizer', 'TOK'), ('sim_measure_type', 'MEASURE'), ('threshold', 'THRESHOLD'),
+              ('allow_empty', 'Bool', 'true'), ('allow_missing', 'Bool', 'false')],
+        value=('FilterObj', '({{ cfg := {cfg}, allowEmpty := {allow_empty}, allowMissing := {allow_missing} }} : FilterObj)')),
+    'PrefixFilter': dict(
+        file='py_stringsimjoin/filter/prefix_filter.py', module='py_stringsimjoin.filter.prefix_filter',
+        ctor=[('tokenizer', 'TOK'), ('sim_measure_type', 'MEASURE'), ('threshold', 'THRESHOLD'),
+              ('allow_empty', 'Bool', 'true'), ('allow_missing', 'Bool', 'false')],
+        value=('FilterObj', '({{ cfg := {cfg}, allowEmpty := {allow_empty}, allowMissing := {allow_missing} }} : FilterObj)')),
+    'OverlapFilter': dict(
+        file='py_stringsimjoin/filter/overlap_filter.py', module='py_stringsimjoin.filter.overlap_filter',
+        ctor=[('tokenizer', 'TOK'), ('overlap_size', 'Nat', '1'), ('comp_op', 'String', '">="'),
+              ('allow_missing', 'Bool', 'false')],
+        value=('OverlapFilterObj', '({{ overlapSize := PyV.int (Int.ofNat {overlap_size}), compOp := {comp_op}, '
+                                   'allowMissing := {allow_missing} }} : OverlapFilterObj)')),
+}
+
+# methods of filter objects (a parameter or a constructed object) that are generated functions
+OBJ_METHODS = {
+    ('FilterObj', 'PositionFilter', 'find_candidates'): ('PositionFilter_find_candidates {recv}', [L('Nat'), 'PosIndex'], D('Nat', 'Int')),
+    ('FilterObj', 'PrefixFilter', 'find_candidates'): ('PrefixFilter_find_candidates {recv}', [L('Nat'), 'PrefIndex'], ('Set', 'Nat')),
+    ('FilterObj', 'SizeFilter', 'find_candidates'): ('SizeFilter_find_candidates {recv}', ['Nat', 'SizeIndex'], ('Set', 'Nat')),
+    ('OverlapFilterObj', 'OverlapFilter', 'find_candidates'): ('OverlapFilter_find_candidates', [L('String'), 'InvIndex'], D('Nat', 'Int')),
+    ('FilterObj', 'SuffixFilter', '_filter_suffix'): ('SuffixFilter_filter_suffix {recv}', [L('Nat'), L('Nat'), 'Int', 'Int', 'Nat', 'Nat'], 'Bool'),
+}
+
+# `self.sim_measure_type == '<NAME>'`  (Measure.name in SSJ/Model/Basic.lean)
+MEASURES = {'COSINE': 'Measure.cosine', 'DICE': 'Measure.dice', 'EDIT_DISTANCE': 'Measure.editDistance',
+            'JACCARD': 'Measure.jaccard', 'OVERLAP': 'Measure.overlap'}
+
 # names that must be bound by exactly this import in the module for the idiom to apply
 REQUIRED_IMPORTS = {
+    'floor': ('math', 'floor'),
+    'pd': ('pandas', None),
     'maxsize': ('sys', 'maxsize'),
     'itemgetter': ('operator', 'itemgetter'),
     'xrange': ('six.moves', 'xrange'),
@@ -158,6 +273,61 @@ TO = 'py_stringsimjoin/utils/token_ordering.py'
 OF = 'py_stringsimjoin/filter/overlap_filter.py'
 PF = 'py_stringsimjoin/filter/position_filter.py'
 PI = 'py_stringsimjoin/index/position_index.py'
+MVH = 'py_stringsimjoin/utils/missing_value_handler.py'
+SF = 'py_stringsimjoin/filter/suffix_filter.py'
+SZ = 'py_stringsimjoin/filter/size_filter.py'
+PRF = 'py_stringsimjoin/filter/prefix_filter.py'
+TOKFN = Fn(['String'], L('String'))
+TOKORD = 'py_stringsimjoin.utils.token_ordering'
+ORD_CALLS = {
+    'gen_token_ordering_for_lists': dict(lean='gen_token_ordering_for_lists', args=[L(L('String'))],
+                                         ret=D('String', 'Nat'),
+                                         **{'import': (TOKORD, 'gen_token_ordering_for_lists')}),
+    'order_using_token_ordering': dict(lean='order_using_token_ordering',
+                                       args=[L('String'), D('String', 'Nat')], ret=L('Nat'),
+                                       **{'import': (TOKORD, 'order_using_token_ordering')}),
+}
+GH_MOD = 'py_stringsimjoin.utils.generic_helper'
+SIMF_MOD = 'py_stringsimjoin.utils.simfunctions'
+WORKER_CALLS = {
+    'find_output_attribute_indices': dict(lean='find_output_attribute_indices',
+                                          args=[L('String'), O(L('String'))], ret=L('Nat'),
+                                          **{'import': (GH_MOD, 'find_output_attribute_indices')}),
+    'get_output_row_from_tables': dict(lean='get_output_row_from_tables',
+                                       args=['Row', 'Row', 'Nat', 'Nat', L('Nat'), L('Nat')], ret='Row',
+                                       **{'import': (GH_MOD, 'get_output_row_from_tables')}),
+    'get_output_header_from_tables': dict(lean='get_output_header_from_tables',
+                                          args=['String', 'String', O(L('String')), O(L('String')), 'String', 'String'],
+                                          ret=L('String'),
+                                          **{'import': (GH_MOD, 'get_output_header_from_tables')}),
+    'gen_token_ordering_for_tables': dict(lean='gen_token_ordering_for_tables',
+                                          args=[L(L('Row')), L('Nat'), 'TOK', 'SKIP'], ret=D('String', 'Nat'),
+                                          **{'import': (TOKORD, 'gen_token_ordering_for_tables')}),
+    'order_using_token_ordering': dict(lean='order_using_token_ordering',
+                                       args=[L('String'), D('String', 'Nat')], ret=L('Nat'),
+                                       **{'import': (TOKORD, 'order_using_token_ordering')}),
+}
+COMP_ALIAS = dict(src='COMP_OP_MAP[comp_op]', imports={'COMP_OP_MAP': (GH_MOD, 'COMP_OP_MAP')},
+                  lean='(compFn comp_op {0} {1})', args=['PyV', 'PyV'], ret='Bool')
+WORKER_LOCALS = {'l_key_attr_index': 'Nat', 'r_key_attr_index': 'Nat', 'l_out_attrs_indices': L('Nat'),
+                 'r_out_attrs_indices': L('Nat'), 'output_rows': L('Row'), 'has_output_attributes': 'Bool',
+                 'r_row': 'Row', 'r_string': 'Cell', 'l_id': 'Nat', 'output_row': 'Row', 'cand': 'Nat',
+                 'l_empty_records': L('Nat'), 'output_header': L('String')}
+WORKER_HEAD = [('l_columns', L('String')), ('r_columns', L('String')), ('l_key_attr', 'String'),
+               ('r_key_attr', 'String')]
+WORKER_OUT = [('l_out_attrs', O(L('String'))), ('r_out_attrs', O(L('String'))), ('l_out_prefix', 'String'),
+              ('r_out_prefix', 'String')]
+WORKER_RET = P(L('String'), L('Row'))
+PAIR_PARAMS = [('self', 'FilterObj'), ('tok', TOKFN), ('lstring', 'Cell'), ('rstring', 'Cell')]
+PAIR_LOCALS = {'ltokens': L('String'), 'rtokens': L('String'), 'l_num_tokens': 'Nat', 'r_num_tokens': 'Nat',
+               'token_ordering': D('String', 'Nat'), 'ordered_ltokens': L('Nat'), 'ordered_rtokens': L('Nat'),
+               'l_prefix_length': 'Int', 'r_prefix_length': 'Int'}
+# token type of the suffix-filter helpers: ranks (Nat) or numbered ranks (Nat × Nat, lexicographic)
+TOKV = '{τ : Type} [DecidableEq τ] [LT τ] [DecidableLT τ] [Inhabited τ]'
+LT_ = ('List', 'τ')
+BS_ARGS = [LT_, 'τ', 'Int', 'Int']
+PART_RET = T(LT_, LT_, 'Int', 'Int')
+EST_ARGS = [LT_, LT_, 'Int', 'Int', 'Int', 'Nat']
 
 SPECS = [
     dict(lean='remove_redundant_attrs', file=GH, cls=None, py='remove_redundant_attrs',
@@ -238,6 +408,326 @@ SPECS = [
                  'cached_tokens': L(L('Nat')), 'empty_records': L('Nat'), 'row_id': 'Nat',
                  'index_attr_tokens': L('Nat'), 'num_tokens': 'Nat', 'prefix_length': 'Int',
                  'pos': 'Nat', 'token': 'Nat'}),
+
+    # ------------------------------------------------------------------------------------------------
+    # stage 3, group A: filter/suffix_filter.py
+    # ------------------------------------------------------------------------------------------------
+    dict(lean='number_repeated_tokens', out='Loops2', file=SF, cls=None, py='_number_repeated_tokens',
+         model='SSJ.numberRepeated (pairs (t, k) encoded as t * base + k)',
+         params=[('ordered_tokens', L('Nat'))], ret=L('NumTok'),
+         locals={'numbered_tokens': L('NumTok'), 'prev_token': O('Nat'), 'occurrence': 'Nat',
+                 'token': 'Nat'}),
+    # recursive in Python: structural recursion on `fuel`; out of fuel (Python: RecursionError) ↦ `left`,
+    # as in the model
+    dict(lean='SuffixFilter_binary_search', out='Loops2', file=SF, cls='SuffixFilter', py='_binary_search',
+         model='SSJ.suffixBinarySearch', tyvars=TOKV,
+         pyparams=['self', 'tokens', 'probe_token', 'left', 'right'],
+         params=[('tokens', LT_), ('probe_token', 'τ'), ('left', 'Int'), ('right', 'Int')], ret='Int',
+         fuel=dict(exhausted='left'),
+         calls={'self._binary_search': dict(lean='SuffixFilter_binary_search', fuel='fuel', args=BS_ARGS, ret='Int')},
+         locals={'mid': 'Int', 'mid_token': 'τ'}),
+    dict(lean='SuffixFilter_partition', out='Loops2', file=SF, cls='SuffixFilter', py='_partition',
+         model='SSJ.suffixPartition', tyvars=TOKV,
+         pyparams=['self', 'tokens', 'probe_token', 'left', 'right'],
+         params=[('tokens', LT_), ('probe_token', 'τ'), ('left', 'Int'), ('right', 'Int')], ret=PART_RET,
+         # the search interval has right - left + 1 positions and shrinks at every call
+         calls={'self._binary_search': dict(lean='SuffixFilter_binary_search', fuel='({3} - {2} + 2).toNat',
+                                            args=BS_ARGS, ret='Int')},
+         locals={'pos': 'Int', 'tokens_left': LT_, 'tokens_right': LT_, 'diff': 'Int'}),
+    dict(lean='SuffixFilter_est_hamming_dist_lower_bound', out='Loops2', file=SF, cls='SuffixFilter',
+         py='_est_hamming_dist_lower_bound', model='SSJ.suffixEstHamming 2', tyvars=TOKV,
+         pyparams=['self', 'l_suffix', 'r_suffix', 'l_suffix_num_tokens', 'r_suffix_num_tokens',
+                   'hamming_dist_max', 'depth'],
+         params=[('l_suffix', LT_), ('r_suffix', LT_), ('l_suffix_num_tokens', 'Int'),
+                 ('r_suffix_num_tokens', 'Int'), ('hamming_dist_max', 'Int'), ('depth', 'Nat')], ret='Int',
+         fuel=dict(exhausted='(intAbs (l_suffix_num_tokens - r_suffix_num_tokens))'),
+         consts={'self.max_depth': ('2', 'Nat')},
+         calls={'self._partition': dict(lean='SuffixFilter_partition', args=BS_ARGS, ret=PART_RET),
+                'self._est_hamming_dist_lower_bound': dict(lean='SuffixFilter_est_hamming_dist_lower_bound',
+                                                           fuel='fuel', args=EST_ARGS, ret='Int')},
+         locals={'abs_diff': 'Int', 'r_mid': 'Int', 'r_mid_token': 'τ', 'o': 'Rat', 'o_l': 'Int', 'o_r': 'Int',
+                 'r_l': LT_, 'r_r': LT_, 'l_l': LT_, 'l_r': LT_, 'flag': 'Int', 'diff': 'Int',
+                 'r_l_num_tokens': 'Nat', 'r_r_num_tokens': 'Nat', 'l_l_num_tokens': 'Nat',
+                 'l_r_num_tokens': 'Nat', 'hamming_dist': 'Int', 'hamming_dist_l': 'Int',
+                 'hamming_dist_r': 'Int'}),
+    dict(lean='SuffixFilter_filter_suffix', out='Loops2', file=SF, cls='SuffixFilter', py='_filter_suffix',
+         model='SSJ.suffixFilterSuffixN',
+         pyparams=['self', 'l_suffix', 'r_suffix', 'l_prefix_num_tokens', 'r_prefix_num_tokens',
+                   'l_num_tokens', 'r_num_tokens'],
+         params=[('self', 'FilterObj'), ('l_suffix', L('Nat')), ('r_suffix', L('Nat')),
+                 ('l_prefix_num_tokens', 'Int'), ('r_prefix_num_tokens', 'Int'),
+                 ('l_num_tokens', 'Nat'), ('r_num_tokens', 'Nat')], ret='Bool', cfg='self.cfg',
+         retype={'l_suffix': L('NumTok'), 'r_suffix': L('NumTok')},
+         # depth starts at 1 and a call at depth > max_depth = 2 returns at once: 3 nested calls, fuel 4
+         calls={'_number_repeated_tokens': dict(lean='number_repeated_tokens', args=[L('Nat')],
+                                                ret=L('NumTok')),
+                'self._est_hamming_dist_lower_bound': dict(lean='SuffixFilter_est_hamming_dist_lower_bound',
+                                                           fuel='4', args=EST_ARGS, ret='Int')},
+         locals={'overlap_threshold': 'Int', 'hamming_dist_max': 'Int', 'hamming_dist': 'Int'}),
+
+    # ------------------------------------------------------------------------------------------------
+    # stage 3, group B: filter_pair.  `lstring`/`rstring` are cells of the join columns, the tokenizer is the
+    # parameter `tok`.
+    # ------------------------------------------------------------------------------------------------
+    dict(lean='SizeFilter_filter_pair', out='Loops2', file=SZ, cls='SizeFilter', py='filter_pair',
+         model='SSJ.sizeFilterPair', pyparams=['self', 'lstring', 'rstring'], params=PAIR_PARAMS, ret='Bool',
+         cfg='self.cfg',
+         locals={'l_num_tokens': 'Nat', 'r_num_tokens': 'Nat', 'size_lower_bound': 'Int', 'size_upper_bound': 'Int'}),
+    dict(lean='PrefixFilter_filter_pair', out='Loops2', file=PRF, cls='PrefixFilter', py='filter_pair',
+         model='SSJ.prefixFilterPair', pyparams=['self', 'lstring', 'rstring'], params=PAIR_PARAMS, ret='Bool',
+         cfg='self.cfg', calls=ORD_CALLS,
+         locals=dict(PAIR_LOCALS, prefix_overlap=('Set', 'Nat'))),
+    dict(lean='PositionFilter_filter_pair', out='Loops2', file=PF, cls='PositionFilter', py='filter_pair',
+         model='SSJ.positionFilterPair', pyparams=['self', 'lstring', 'rstring'], params=PAIR_PARAMS, ret='Bool',
+         cfg='self.cfg', calls=ORD_CALLS,
+         # `l_pos` is first the int 0 and later the result of `dict.get`: typed Option Nat
+         locals=dict(PAIR_LOCALS, l_prefix_dict=D('Nat', 'Nat'), l_pos=O('Nat'), token='Nat',
+                     overlap_threshold='Int', current_overlap='Int', r_pos='Nat', overlap_upper_bound='Int')),
+    dict(lean='SuffixFilter_filter_pair', out='Loops2', file=SF, cls='SuffixFilter', py='filter_pair',
+         model='SSJ.suffixFilterPair', pyparams=['self', 'lstring', 'rstring'], params=PAIR_PARAMS, ret='Bool',
+         cfg='self.cfg',
+         calls=dict(ORD_CALLS, **{'self._filter_suffix': dict(
+             lean='SuffixFilter_filter_suffix', pre=['self'],
+             args=[L('Nat'), L('Nat'), 'Int', 'Int', 'Nat', 'Nat'], ret='Bool')}),
+         locals=PAIR_LOCALS),
+    dict(lean='OverlapFilter_filter_pair', out='Loops2', file=OF, cls='OverlapFilter', py='filter_pair',
+         model='SSJ.overlapFilterPair', pyparams=['self', 'lstring', 'rstring'],
+         params=[('self', 'OverlapFilterObj'), ('tok', TOKFN), ('lstring', 'Cell'), ('rstring', 'Cell')],
+         ret='Bool', string_cells=['lstring', 'rstring'],
+         calls={'overlap': dict(lean='overlapCount', args=[L('String'), L('String')], ret='Nat',
+                                **{'import': ('py_stringsimjoin.utils.simfunctions', 'overlap')})},
+         contracts=[('py_stringsimjoin/utils/simfunctions.py', None, 'overlap',
+                     'if not isinstance(set1, set):\n    set1 = set(set1)\n'
+                     'if not isinstance(set2, set):\n    set2 = set(set2)\n'
+                     'return len(set1.intersection(set2))')],
+         locals={'ltokens': L('String'), 'rtokens': L('String'), 'num_overlap': 'Nat'}),
+
+    # ------------------------------------------------------------------------------------------------
+    # stage 3, group C: find_candidates of the size and prefix filters, the remaining index builders,
+    # gen_token_ordering_for_tables
+    # ------------------------------------------------------------------------------------------------
+    dict(lean='SizeFilter_find_candidates', out='Loops2', file=SZ, cls='SizeFilter', py='find_candidates',
+         model='SSJ.sizeFindCandidates', pyparams=['self', 'probe_size', 'size_index'],
+         params=[('self', 'FilterObj'), ('probe_size', 'Nat'), ('size_index', 'SizeIndex')],
+         ret=('Set', 'Nat'), cfg='self.cfg',
+         locals={'size_lower_bound': 'Int', 'size_upper_bound': 'Int', 'candidates': ('Set', 'Nat'),
+                 'cand_size': 'Int', 'cand': 'Nat'}),
+    dict(lean='PrefixFilter_find_candidates', out='Loops2', file=PRF, cls='PrefixFilter', py='find_candidates',
+         model='SSJ.prefixFindCandidates', pyparams=['self', 'probe_tokens', 'prefix_index'],
+         params=[('self', 'FilterObj'), ('probe_tokens', L('Nat')), ('prefix_index', 'PrefIndex')],
+         ret=('Set', 'Nat'), cfg='self.cfg',
+         locals={'probe_num_tokens': 'Nat', 'probe_prefix_length': 'Int', 'candidates': ('Set', 'Nat'),
+                 'token': 'Nat'}),
+    dict(lean='SizeIndex_build', out='Loops2', file='py_stringsimjoin/index/size_index.py', cls='SizeIndex',
+         py='build', model='SSJ.SizeIndex.build', pyparams=['self', 'cache_empty_records'],
+         params=[('sizes', L('Nat')), ('cache_empty_records', 'Bool')], ret='SizeIndex',
+         state=[('index', 'self_index', None), ('min_length', 'self_min_length', 'maxsize'),
+                ('max_length', 'self_max_length', '0')],
+         row_view=dict(iter='self.table', var='row',
+                       steps=['index_string = row[self.index_attr]',
+                              'num_tokens = len(self.tokenizer.tokenize(index_string))'],
+                       hidden=['row', 'index_string'], view='num_tokens', param='sizes'),
+         ret_record=[('index', 'self_index'), ('minLength', 'self_min_length'), ('maxLength', 'self_max_length'),
+                     ('emptyRecords', "'empty_records'")],
+         locals={'self_index': D('Nat', L('Nat')), 'self_min_length': 'Int', 'self_max_length': 'Int',
+                 'empty_records': L('Nat'), 'row_id': 'Nat', 'num_tokens': 'Nat'}),
+    dict(lean='PrefixIndex_build', out='Loops2', file='py_stringsimjoin/index/prefix_index.py', cls='PrefixIndex',
+         py='build', model='SSJ.PrefIndex.build', pyparams=['self', 'cache_empty_records'],
+         params=[('cfg', 'FCfg'), ('ordered_rows', L(L('Nat'))), ('cache_empty_records', 'Bool')],
+         ret='PrefIndex', cfg='cfg',
+         state=[('index', 'self_index', None)],
+         row_view=dict(iter='self.table', var='row',
+                       steps=['index_string = row[self.index_attr]',
+                              'index_attr_tokens = order_using_token_ordering('
+                              'self.tokenizer.tokenize(index_string), self.token_ordering)'],
+                       hidden=['row', 'index_string'], view='index_attr_tokens', param='ordered_rows'),
+         ret_record=[('index', 'self_index'), ('emptyRecords', "'empty_records'")],
+         locals={'self_index': D('Nat', L('Nat')), 'empty_records': L('Nat'), 'row_id': 'Nat',
+                 'index_attr_tokens': L('Nat'), 'num_tokens': 'Nat', 'prefix_length': 'Int', 'token': 'Nat'}),
+    dict(lean='InvertedIndex_build', out='Loops2', file='py_stringsimjoin/index/inverted_index.py',
+         cls='InvertedIndex', py='build', model='SSJ.InvIndex.build', pyparams=['self', 'cache_empty_records'],
+         params=[('token_rows', L(L('String'))), ('cache_size_flag', 'Bool'), ('cache_empty_records', 'Bool')],
+         ret='InvIndex',
+         consts={'self.cache_size_flag': ('cache_size_flag', 'Bool')},
+         state=[('index', 'self_index', None), ('size_cache', 'self_size_cache', None)],
+         row_view=dict(iter='self.table', var='row',
+                       steps=['index_string = row[self.index_attr]',
+                              'index_attr_tokens = self.tokenizer.tokenize(index_string)'],
+                       hidden=['row', 'index_string'], view='index_attr_tokens', param='token_rows'),
+         ret_record=[('index', 'self_index'), ('sizeCache', 'self_size_cache'),
+                     ('emptyRecords', "'empty_records'")],
+         locals={'self_index': D('String', L('Nat')), 'self_size_cache': L('Nat'), 'empty_records': L('Nat'),
+                 'row_id': 'Nat', 'index_attr_tokens': L('String'), 'token': 'String', 'num_tokens': 'Nat'}),
+    dict(lean='gen_token_ordering_for_tables', out='Loops2', file=TO, cls=None, py='gen_token_ordering_for_tables',
+         model='SSJ.genTokenOrdering', pyparams=['table_list', 'attr_list', 'tokenizer', 'sim_measure_type'],
+         params=[('table_list', L(L('Row'))), ('attr_list', L('Nat')), ('tok', TOKFN)], ret=D('String', 'Nat'),
+         tokenizer='tokenizer', unused_params=['sim_measure_type'],
+         locals={'token_freq_dict': D('String', 'Nat'), 'table_index': 'Nat', 'table': L('Row'), 'row': 'Row',
+                 'token': 'String', 'ordered_tokens': L(P('String', 'Nat')), 'token_ordering': D('String', 'Nat'),
+                 'order_idx': 'Nat', 'token_freq_tuple': P('String', 'Nat')}),
+
+    # ------------------------------------------------------------------------------------------------
+    # stage 3, group D: the per-chunk workers on plain row lists, up to (not including) the final
+    # `pd.DataFrame(output_rows, columns=output_header)`: the result is the pair (header, rows).
+    # The triple (tokenizer, sim_measure_type, threshold) is the parameter `cfg : FCfg` (+ `tok`).
+    # ------------------------------------------------------------------------------------------------
+    dict(lean='set_sim_join', out='Loops2', file='py_stringsimjoin/join/set_sim_join.py', cls=None,
+         py='set_sim_join', model='SSJ.setSimJoin',
+         pyparams=['ltable', 'rtable', 'l_columns', 'r_columns', 'l_key_attr', 'r_key_attr', 'l_join_attr',
+                   'r_join_attr', 'tokenizer', 'sim_measure_type', 'threshold', 'comp_op', 'allow_empty',
+                   'l_out_attrs', 'r_out_attrs', 'l_out_prefix', 'r_out_prefix', 'out_sim_score', 'show_progress'],
+         params=[('ltable', L('Row')), ('rtable', L('Row'))] + WORKER_HEAD +
+                [('l_join_attr', 'String'), ('r_join_attr', 'String'), ('tok', TOKFN), ('cfg', 'FCfg'),
+                 ('comp_op', 'String'), ('allow_empty', 'Bool')] + WORKER_OUT + [('out_sim_score', 'Bool')],
+         ret=WORKER_RET, tokenizer='tokenizer', cfg='cfg',
+         param_map={'tokenizer': (None, None), 'sim_measure_type': ('cfg.measure', 'Measure'),
+                    'threshold': ('cfg.threshold', 'PyV')},
+         cfg_sources={'TOK': 'tokenizer', 'MEASURE': 'sim_measure_type', 'THRESHOLD': 'threshold'},
+         ignore_if=['show_progress'], dataframe_return=('output_rows', 'output_header'),
+         objects={'position_index': 'PositionIndex', 'pos_filter': 'PositionFilter'},
+         build_results={'cached_data': 'position_index'},
+         fn_aliases={'sim_fn': dict(src='get_sim_function(sim_measure_type)',
+                                    imports={'get_sim_function': (SIMF_MOD, 'get_sim_function')},
+                                    lean='(simRaw cfg.measure {0} {1})', args=[L('Nat'), L('Nat')], ret='PyV'),
+                     'comp_fn': COMP_ALIAS},
+         calls=WORKER_CALLS,
+         locals=dict(WORKER_LOCALS, l_join_attr_index='Nat', r_join_attr_index='Nat',
+                     token_ordering=D('String', 'Nat'), cached_l_tokens=L(L('Nat')), r_ordered_tokens=L('Nat'),
+                     candidate_overlap=D('Nat', 'Int'), overlap='Int', l_ordered_tokens=L('Nat'),
+                     sim_score='PyV')),
+
+    dict(lean='overlap_coefficient_join_split', out='Loops2',
+         file='py_stringsimjoin/join/overlap_coefficient_join_py.py', cls=None,
+         py='_overlap_coefficient_join_split', model='SSJ.overlapCoefficientJoinSplit',
+         pyparams=['ltable_list', 'rtable_list', 'l_columns', 'r_columns', 'l_key_attr', 'r_key_attr',
+                   'l_join_attr', 'r_join_attr', 'tokenizer', 'threshold', 'comp_op', 'allow_empty',
+                   'l_out_attrs', 'r_out_attrs', 'l_out_prefix', 'r_out_prefix', 'out_sim_score', 'show_progress'],
+         params=[('ltable_list', L('Row')), ('rtable_list', L('Row'))] + WORKER_HEAD +
+                [('l_join_attr', 'String'), ('r_join_attr', 'String'), ('tok', TOKFN), ('threshold', 'PyV'),
+                 ('comp_op', 'String'), ('allow_empty', 'Bool')] + WORKER_OUT + [('out_sim_score', 'Bool')],
+         ret=WORKER_RET, tokenizer='tokenizer', param_map={'tokenizer': (None, None)},
+         cfg_sources={'TOK': 'tokenizer'},
+         ignore_if=['show_progress'], dataframe_return=('output_rows', 'output_header'),
+         objects={'inverted_index': 'InvertedIndex', 'overlap_filter': 'OverlapFilter'},
+         build_results={'cached_data': 'inverted_index'},
+         fn_aliases={'comp_fn': COMP_ALIAS}, calls=WORKER_CALLS,
+         locals=dict(WORKER_LOCALS, l_join_attr_index='Nat', r_join_attr_index='Nat',
+                     r_join_attr_tokens=L('String'), r_num_tokens='Nat', candidate_overlap=D('Nat', 'Int'),
+                     overlap='Int', sim_score='PyV')),
+    dict(lean='edit_distance_join_split', out='Loops2',
+         file='py_stringsimjoin/join/edit_distance_join_py.py', cls=None,
+         py='_edit_distance_join_split', model='SSJ.editDistanceJoinSplit',
+         pyparams=['ltable_list', 'rtable_list', 'l_columns', 'r_columns', 'l_key_attr', 'r_key_attr',
+                   'l_join_attr', 'r_join_attr', 'tokenizer', 'threshold', 'comp_op',
+                   'l_out_attrs', 'r_out_attrs', 'l_out_prefix', 'r_out_prefix', 'out_sim_score', 'show_progress'],
+         # `qval` is the q of the q-gram tokenizer (what get_prefix_length reads from `tokenizer`)
+         params=[('ltable_list', L('Row')), ('rtable_list', L('Row'))] + WORKER_HEAD +
+                [('l_join_attr', 'String'), ('r_join_attr', 'String'), ('tok', TOKFN), ('qval', 'Int'),
+                 ('threshold', 'Int'), ('comp_op', 'String')] + WORKER_OUT + [('out_sim_score', 'Bool')],
+         ret=WORKER_RET, tokenizer='tokenizer',
+         cfg='({ measure := Measure.editDistance, threshold := PyV.int threshold, qval := PyV.int qval } : FCfg)',
+         param_map={'tokenizer': (None, None), 'sim_measure_type': (None, None)},
+         const_locals={'sim_measure_type': "'EDIT_DISTANCE'"},
+         cfg_sources={'TOK': 'tokenizer', 'MEASURE': 'sim_measure_type', 'THRESHOLD': 'threshold'},
+         ignore_if=['show_progress'], dataframe_return=('output_rows', 'output_header'),
+         objects={'prefix_index': 'PrefixIndex', 'prefix_filter': 'PrefixFilter'},
+         fn_aliases={'comp_fn': COMP_ALIAS,
+                     'sim_fn': dict(src='get_sim_function(sim_measure_type)',
+                                    imports={'get_sim_function': (SIMF_MOD, 'get_sim_function')},
+                                    lean='(lev {0}.strVal {1}.strVal)', args=['Cell', 'Cell'], ret='Nat')},
+         calls=WORKER_CALLS,
+         locals=dict(WORKER_LOCALS, l_join_attr_index='Nat', r_join_attr_index='Nat',
+                     token_ordering=D('String', 'Nat'), l_join_attr_list=L('Nat'), row='Row', r_len='Nat',
+                     r_ordered_tokens=L('Nat'), candidates=('Set', 'Nat'), l_row='Row', edit_dist='Nat')),
+    dict(lean='SizeFilter_filter_tables_split', out='Loops2', file='py_stringsimjoin/filter/size_filter.py', cls=None, py='_filter_tables_split', model='SSJ.sizeFilterTablesSplit',
+         pyparams=['ltable', 'rtable', 'l_columns', 'r_columns', 'l_key_attr', 'r_key_attr', 'l_filter_attr', 'r_filter_attr', 'size_filter', 'l_out_attrs', 'r_out_attrs', 'l_out_prefix', 'r_out_prefix', 'show_progress'],
+         params=[('ltable', L('Row')), ('rtable', L('Row'))] + WORKER_HEAD +
+                [('l_filter_attr', 'String'), ('r_filter_attr', 'String'), ('size_filter', 'FilterObj'), ('tok', TOKFN)] +
+                WORKER_OUT,
+         ret=WORKER_RET, tokenizer='size_filter.tokenizer', cfg='size_filter.cfg', cfg_obj='size_filter',
+         cfg_sources={'TOK': 'size_filter.tokenizer', 'MEASURE': 'size_filter.sim_measure_type', 'THRESHOLD': 'size_filter.threshold'},
+         filter_params={'size_filter': 'SizeFilter'},
+         ignore_if=['show_progress'], dataframe_return=('output_rows', 'output_header'),
+         objects={'size_index': 'SizeIndex'}, build_results={'cached_data': 'size_index'}, calls=WORKER_CALLS,
+         locals=dict(WORKER_LOCALS, l_filter_attr_index='Nat', r_filter_attr_index='Nat', handle_empty='Bool',
+                     r_num_tokens='Nat', candidates=('Set', 'Nat'))),
+    dict(lean='PrefixFilter_filter_tables_split', out='Loops2', file='py_stringsimjoin/filter/prefix_filter.py', cls=None, py='_filter_tables_split', model='SSJ.prefixFilterTablesSplit',
+         pyparams=['ltable', 'rtable', 'l_columns', 'r_columns', 'l_key_attr', 'r_key_attr', 'l_filter_attr', 'r_filter_attr', 'prefix_filter', 'l_out_attrs', 'r_out_attrs', 'l_out_prefix', 'r_out_prefix', 'show_progress'],
+         params=[('ltable', L('Row')), ('rtable', L('Row'))] + WORKER_HEAD +
+                [('l_filter_attr', 'String'), ('r_filter_attr', 'String'), ('prefix_filter', 'FilterObj'), ('tok', TOKFN)] +
+                WORKER_OUT,
+         ret=WORKER_RET, tokenizer='prefix_filter.tokenizer', cfg='prefix_filter.cfg', cfg_obj='prefix_filter',
+         cfg_sources={'TOK': 'prefix_filter.tokenizer', 'MEASURE': 'prefix_filter.sim_measure_type', 'THRESHOLD': 'prefix_filter.threshold'},
+         filter_params={'prefix_filter': 'PrefixFilter'},
+         ignore_if=['show_progress'], dataframe_return=('output_rows', 'output_header'),
+         objects={'prefix_index': 'PrefixIndex'}, build_results={'cached_data': 'prefix_index'}, calls=WORKER_CALLS,
+         locals=dict(WORKER_LOCALS, l_filter_attr_index='Nat', r_filter_attr_index='Nat', handle_empty='Bool',
+                     token_ordering=D('String', 'Nat'), r_filter_attr_tokens=L('String'), r_ordered_tokens=L('Nat'), candidates=('Set', 'Nat'))),
+    dict(lean='PositionFilter_filter_tables_split', out='Loops2', file='py_stringsimjoin/filter/position_filter.py', cls=None, py='_filter_tables_split', model='SSJ.positionFilterTablesSplit',
+         pyparams=['ltable', 'rtable', 'l_columns', 'r_columns', 'l_key_attr', 'r_key_attr', 'l_filter_attr', 'r_filter_attr', 'position_filter', 'l_out_attrs', 'r_out_attrs', 'l_out_prefix', 'r_out_prefix', 'show_progress'],
+         params=[('ltable', L('Row')), ('rtable', L('Row'))] + WORKER_HEAD +
+                [('l_filter_attr', 'String'), ('r_filter_attr', 'String'), ('position_filter', 'FilterObj'), ('tok', TOKFN)] +
+                WORKER_OUT,
+         ret=WORKER_RET, tokenizer='position_filter.tokenizer', cfg='position_filter.cfg', cfg_obj='position_filter',
+         cfg_sources={'TOK': 'position_filter.tokenizer', 'MEASURE': 'position_filter.sim_measure_type', 'THRESHOLD': 'position_filter.threshold'},
+         filter_params={'position_filter': 'PositionFilter'},
+         ignore_if=['show_progress'], dataframe_return=('output_rows', 'output_header'),
+         objects={'position_index': 'PositionIndex'}, build_results={'cached_data': 'position_index'}, calls=WORKER_CALLS,
+         locals=dict(WORKER_LOCALS, l_filter_attr_index='Nat', r_filter_attr_index='Nat', handle_empty='Bool',
+                     token_ordering=D('String', 'Nat'), r_filter_attr_tokens=L('String'), r_ordered_tokens=L('Nat'), candidate_overlap=D('Nat', 'Int'), overlap='Int')),
+    dict(lean='SuffixFilter_filter_tables_split', out='Loops2', file='py_stringsimjoin/filter/suffix_filter.py', cls=None, py='_filter_tables_split', model='SSJ.suffixFilterTablesSplit',
+         pyparams=['ltable', 'rtable', 'l_columns', 'r_columns', 'l_key_attr', 'r_key_attr', 'l_filter_attr', 'r_filter_attr', 'suffix_filter', 'l_out_attrs', 'r_out_attrs', 'l_out_prefix', 'r_out_prefix', 'show_progress'],
+         params=[('ltable', L('Row')), ('rtable', L('Row'))] + WORKER_HEAD +
+                [('l_filter_attr', 'String'), ('r_filter_attr', 'String'), ('suffix_filter', 'FilterObj'), ('tok', TOKFN)] +
+                WORKER_OUT,
+         ret=WORKER_RET, tokenizer='suffix_filter.tokenizer', cfg='suffix_filter.cfg', cfg_obj='suffix_filter',
+         cfg_sources={'TOK': 'suffix_filter.tokenizer', 'MEASURE': 'suffix_filter.sim_measure_type', 'THRESHOLD': 'suffix_filter.threshold'},
+         filter_params={'suffix_filter': 'SuffixFilter'},
+         ignore_if=['show_progress'], dataframe_return=('output_rows', 'output_header'),
+         objects={}, build_results={}, calls=WORKER_CALLS,
+         locals=dict(WORKER_LOCALS, l_filter_attr_index='Nat', r_filter_attr_index='Nat', handle_empty='Bool',
+                     token_ordering=D('String', 'Nat'), l_row='Row', l_string='Cell', ltokens=L('String'), ordered_ltokens=L('Nat'), l_num_tokens='Nat', l_prefix_length='Int', l_suffix=L('Nat'), rtokens=L('String'), ordered_rtokens=L('Nat'), r_num_tokens='Nat', r_prefix_length='Int')),
+    dict(lean='OverlapFilter_filter_tables_split', out='Loops2', file='py_stringsimjoin/filter/overlap_filter.py', cls=None, py='_filter_tables_split', model='SSJ.overlapFilterTablesSplit',
+         pyparams=['ltable', 'rtable', 'l_columns', 'r_columns', 'l_key_attr', 'r_key_attr', 'l_filter_attr', 'r_filter_attr', 'overlap_filter', 'l_out_attrs', 'r_out_attrs', 'l_out_prefix', 'r_out_prefix', 'out_sim_score', 'show_progress'],
+         params=[('ltable', L('Row')), ('rtable', L('Row'))] + WORKER_HEAD +
+                [('l_filter_attr', 'String'), ('r_filter_attr', 'String'), ('overlap_filter', 'OverlapFilterObj'), ('tok', TOKFN)] +
+                WORKER_OUT + [('out_sim_score', 'Bool')],
+         ret=WORKER_RET, tokenizer='overlap_filter.tokenizer', 
+         cfg_sources={'TOK': 'overlap_filter.tokenizer', 'MEASURE': 'overlap_filter.sim_measure_type', 'THRESHOLD': 'overlap_filter.threshold'},
+         filter_params={'overlap_filter': 'OverlapFilter'},
+         ignore_if=['show_progress'], dataframe_return=('output_rows', 'output_header'),
+         objects={'inverted_index': 'InvertedIndex'}, build_results={}, calls=WORKER_CALLS,
+         fn_aliases={'comp_fn': dict(COMP_ALIAS, src='COMP_OP_MAP[overlap_filter.comp_op]', lean='(compFn overlap_filter.compOp {0} {1})')},
+         locals=dict(WORKER_LOCALS, l_filter_attr_index='Nat', r_filter_attr_index='Nat', handle_empty='Bool',
+                     r_filter_attr_tokens=L('String'), candidate_overlap=D('Nat', 'Int'), overlap='Int')),
+    # ------------------------------------------------------------------------------------------------
+    # stage 3, group E: loops over DataFrame rows where the pandas part is a parameter
+    # ------------------------------------------------------------------------------------------------
+    dict(lean='build_dict_from_table', out='Loops2', file=GH, cls=None, py='build_dict_from_table',
+         model='SSJ.buildDict', pyparams=['table', 'key_attr_index', 'join_attr_index', 'remove_null'],
+         params=[('table', L('Row')), ('key_attr_index', 'Nat'), ('join_attr_index', 'Nat'),
+                 ('remove_null', 'Bool')], ret=D('Cell', 'Row'), frames=['table'],
+         locals={'table_dict': D('Cell', 'Row'), 'row': 'Row'}),
+    dict(lean='get_pairs_with_missing_value', out='Loops2', file=MVH, cls=None,
+         py='get_pairs_with_missing_value', model='SSJ.getPairsWithMissingValue',
+         pyparams=['ltable', 'rtable', 'l_key_attr', 'r_key_attr', 'l_join_attr', 'r_join_attr', 'l_out_attrs',
+                   'r_out_attrs', 'l_out_prefix', 'r_out_prefix', 'out_sim_score', 'show_progress'],
+         # the pandas selections are parameters: the column labels, the rows of rtable and the three row
+         # selections `ltable[pd.isnull(ltable[l_join_attr])]` etc.
+         params=[('l_columns', L('String')), ('r_columns', L('String')), ('ltable_missing', L('Row')),
+                 ('ltable_not_missing', L('Row')), ('rtable_missing', L('Row')), ('rtable', L('Row')),
+                 ('l_key_attr', 'String'), ('r_key_attr', 'String'), ('l_join_attr', 'String'),
+                 ('r_join_attr', 'String')] + WORKER_OUT + [('out_sim_score', 'Bool')],
+         ret=WORKER_RET, unused_defaults=True,
+         pandas_views={'l_columns': 'list(ltable.columns.values)', 'r_columns': 'list(rtable.columns.values)',
+                       'ltable_missing': 'ltable[pd.isnull(ltable[l_join_attr])]',
+                       'ltable_not_missing': 'ltable[pd.notnull(ltable[l_join_attr])]',
+                       'rtable_missing': 'rtable[pd.isnull(rtable[r_join_attr])]'},
+         frames=['rtable', 'ltable_missing', 'ltable_not_missing', 'rtable_missing'],
+         ignore_if=['show_progress'], dataframe_return=('output_rows', 'output_header'),
+         calls=WORKER_CALLS,
+         locals=dict(WORKER_LOCALS, l_join_attr_index='Nat', r_join_attr_index='Nat', l_row='Row')),
+
 ]
 
 
@@ -284,6 +774,14 @@ class Tr:
         self.cache = None             # eliminated cache: dict(name, var, lo, hi, value)
         self.imports = self.collect_imports(module)
         self.view_used = False
+        self.tmp = 0
+        self.rebound_params = set()
+        self.loop_bodies = []         # stack of the statement lists of the enclosing loops
+        self.loop_local = {}          # id(loop body) -> names declared inside it
+        self.objects = {}             # constructed objects: name -> dict(cls, args, built)
+        self.aliases_bound = set()
+        self.checked = set()
+        self.extra_sources = []
         self.mutated = set()
         self.multi_assigned = set()
         self.declared = set()
@@ -336,28 +834,52 @@ class Tr:
             if code.isdigit():
                 return '(%s : Int)' % code
             return '(Int.ofNat %s)' % code
+        if have == 'NoneT' and isinstance(want, tuple) and want[0] == 'Option':
+            return 'none'
         if isinstance(want, tuple) and want[0] == 'Option' and want[1] == have:
             return '(some %s)' % code
+        if want == 'Rat' and have in ('Nat', 'Int'):
+            if code.isdigit():
+                return '(%s : Rat)' % code
+            return '((%s : Int) : Rat)' % self.coerce(node, code, have, 'Int')
         if have == 'EmptyList' and (want == 'Row' or (isinstance(want, tuple) and want[0] in ('List',))):
             return '[]'
         if have == 'EmptyDict' and isinstance(want, tuple) and want[0] == 'Dict':
             return '[]'
+        if have == 'EmptySet' and isinstance(want, tuple) and want[0] == 'Set':
+            return '[]'
         if have == L('Cell') and want == 'Row':
             return code
+        if want == 'Cell':
+            # a value stored into an output row
+            if have == 'FloatLit':
+                return '(Cell.flt %s)' % code
+            if have == 'PyV':
+                return '(scoreCell %s)' % code
+            if have in ('Nat', 'Int'):
+                return '(Cell.int %s)' % self.coerce(node, code, have, 'Int')
+        if want == 'PyV':
+            if have == 'FloatLit':
+                return '(PyV.float %s)' % code
+            if have in ('Nat', 'Int'):
+                return '(PyV.int %s)' % self.coerce(node, code, have, 'Int')
         self.fail(node, 'type mismatch: have %s, want %s' % (self.show(have), self.show(want)))
 
     @staticmethod
     def show(t):
-        return t if isinstance(t, str) and t in ('EmptyList', 'EmptyDict', 'Cache', 'None') else lean_type(t)
+        if isinstance(t, tuple) and t[0] == 'Set':
+            return 'set of %s' % lean_type(t[1])
+        return t if isinstance(t, str) and t in ('EmptyList', 'EmptyDict', 'EmptySet', 'Cache', 'NoneT', 'FloatLit') else lean_type(t)
 
     def numeric_join(self, node, a, b):
         (ca, ta), (cb, tb) = a, b
         for t in (ta, tb):
-            if t not in ('Nat', 'Int'):
-                self.fail(node, 'integer operand expected, have %s' % self.show(t))
+            if t not in ('Nat', 'Int', 'Rat'):
+                self.fail(node, 'numeric operand expected, have %s' % self.show(t))
         if ta == tb:
             return ca, cb, ta
-        return self.coerce(node, ca, ta, 'Int'), self.coerce(node, cb, tb, 'Int'), 'Int'
+        j = 'Rat' if 'Rat' in (ta, tb) else 'Int'
+        return self.coerce(node, ca, ta, j), self.coerce(node, cb, tb, j), j
 
     # ---- expressions: returns (lean code, type) -------------------------------------------------
     def var(self, e):
@@ -365,6 +887,11 @@ class Tr:
         if name == 'maxsize' and name not in self.env and name not in self.locals:
             self.need_import(e, 'maxsize')
             return 'maxsize', 'Int'          # SSJ.maxsize = sys.maxsize
+        if name in self.spec.get('param_map', {}) and name not in self.env:
+            code, t = self.spec['param_map'][name]
+            if code is None:
+                self.fail(e, '`%s` may only be used where the table expects it' % name)
+            return code, t
         if name not in self.env:
             self.fail(e, 'variable not in scope / not in the type table')
         t = self.env[name]
@@ -374,10 +901,59 @@ class Tr:
             return '(%s.getD %s)' % (name, default_of(t[1])), t[1]
         return name, t
 
-    def no_alias(self, e):
-        """a mutated list/dict variable must never be aliased (the translation is functional)"""
+    def no_alias(self, e, last_use=None):
+        """a mutated list/dict variable must never be aliased (the translation is functional) — except
+        that a list may be appended to another one when this is its last use before it is rebound:
+        `last_use = (stmts, k)` is the position of the appending statement"""
         if isinstance(e, ast.Name) and e.id in self.mutated:
+            if last_use is not None and self.is_last_use(e.id, *last_use):
+                return
             self.fail(e, 'aliasing of a mutated list/dict variable')
+
+    def is_last_use(self, name, stmts, k):
+        """After the statement stmts[k] (which stores the list `name` into another list) the next thing that
+        happens to `name` on every path is an assignment of a fresh value: `name` is local to an enclosing
+        loop (declared inside its body, definitely assigned before use in every iteration), and a
+        definite-assignment analysis of the continuation of stmts[k], started in the state "unassigned",
+        finds no use before an assignment."""
+        target = stmts[k]
+        for body in reversed(self.loop_bodies):
+            if name in self.loop_local.get(id(body), set()):
+                break
+        else:
+            # declared at function level: the continuation is followed up to the end of the function
+            body = self.top_body
+
+        def path(block):
+            for i, st in enumerate(block):
+                if st is target:
+                    return [(block, i, None)]
+                subs = []
+                if isinstance(st, ast.If):
+                    subs = [st.body, st.orelse]
+                elif isinstance(st, ast.For):
+                    subs = [st.body]
+                for sub in subs:
+                    p_ = path(sub)
+                    if p_ is not None:
+                        return [(block, i, st)] + p_
+            return None
+        frames = path(body)
+        if frames is None:
+            return False
+        assigned = False
+        for depth in range(len(frames) - 1, -1, -1):
+            block, i, _ = frames[depth]
+            ok, assigned = self.definitely_assigned(block[i + 1:], name, assigned)
+            if not ok:
+                return False
+            owner = frames[depth - 1][2] if depth > 0 else None
+            if isinstance(owner, ast.For):
+                # the inner loop may run again: its body, entered with the list already given away
+                if not self.definitely_assigned(owner.body, name, False)[0]:
+                    return False
+                assigned = False
+        return True
 
     def expr(self, e):
         if isinstance(e, ast.Constant):
@@ -386,8 +962,16 @@ class Tr:
                 return ('true' if v else 'false'), 'Bool'
             if isinstance(v, int):
                 return str(v), 'Nat'
+            if isinstance(v, float):
+                from fractions import Fraction
+                fr = Fraction(v)
+                if fr.denominator == 1:
+                    return '(%d : Rat)' % fr.numerator, 'FloatLit'
+                return '((%d : Rat) / %d)' % (fr.numerator, fr.denominator), 'FloatLit'
             if isinstance(v, str):
                 return json.dumps(v, ensure_ascii=False), 'String'
+            if v is None:
+                return 'none', 'NoneT'
             self.fail(e, 'constant outside the table')
         if isinstance(e, ast.UnaryOp) and isinstance(e.op, ast.USub) and isinstance(e.operand, ast.Constant) \
                 and isinstance(e.operand.value, int) and not isinstance(e.operand.value, bool):
@@ -411,12 +995,15 @@ class Tr:
                 self.fail(e, 'non-empty dict literal')
             return '[]', 'EmptyDict'
         if isinstance(e, ast.Tuple):
-            if len(e.elts) != 2:
-                self.fail(e, 'only pairs are in the table')
+            if len(e.elts) < 2:
+                self.fail(e, 'tuple with fewer than two components')
             for x in e.elts:
                 self.no_alias(x)
-            (a, ta), (b, tb) = self.expr(e.elts[0]), self.expr(e.elts[1])
-            return '(%s, %s)' % (a, b), P(ta, tb)
+            parts = [self.expr(x) for x in e.elts]
+            for (c, t), x in zip(parts, e.elts):
+                if t in ('EmptyList', 'EmptyDict', 'NoneT'):
+                    self.fail(x, 'untyped literal inside a tuple (only allowed where the tuple type is known)')
+            return '(%s)' % ', '.join(c for c, _ in parts), T(*[t for _, t in parts])
         if isinstance(e, ast.Attribute):
             return self.attribute(e)
         if isinstance(e, ast.Subscript):
@@ -439,9 +1026,43 @@ class Tr:
             return '(!%s)' % c, 'Bool'
         if isinstance(e, ast.Call):
             return self.call(e)
+        if isinstance(e, ast.IfExp):
+            c, _ = self.truthy(e.test)
+            (a, ta), (b, tb) = self.expr(e.body), self.expr(e.orelse)
+            if ta in ('Nat', 'Int', 'Rat') and tb in ('Nat', 'Int', 'Rat'):
+                a, b, ta = self.numeric_join(e, (a, ta), (b, tb))
+            elif ta != tb:
+                self.fail(e, 'conditional expression with branches of types %s and %s' % (self.show(ta), self.show(tb)))
+            return '(if %s then %s else %s)' % (c, a, b), ta
         self.fail(e, 'expression outside the table')
 
+    def expr_expect(self, e, want):
+        """translate `e` where the type is known (tuples are coerced componentwise)"""
+        if isinstance(e, ast.Tuple) and isinstance(want, tuple) and want[0] == 'Prod':
+            comps, w = [], want
+            for i in range(len(e.elts) - 1):
+                if not (isinstance(w, tuple) and w[0] == 'Prod'):
+                    self.fail(e, 'tuple has more components than the type %s' % self.show(want))
+                comps.append(w[1])
+                w = w[2]
+            comps.append(w)
+            for x in e.elts:
+                self.no_alias(x)
+            return '(%s)' % ', '.join(self.expr_expect(x, c) for x, c in zip(e.elts, comps))
+        if isinstance(e, ast.Tuple) and want == 'NumTok' and len(e.elts) == 2:
+            # a Python tuple (token, occurrence), compared lexicographically: the structure `NumTok`
+            return '(NumTok.mk %s %s)' % (self.expr_expect(e.elts[0], 'Nat'), self.expr_expect(e.elts[1], 'Nat'))
+        c, t = self.expr(e)
+        return self.coerce(e, c, t, want)
+
     def attribute(self, e):
+        key = src_of(e)
+        if key == 'np.NaN':
+            if self.imports.get('np') != ('numpy', None):
+                self.fail(e, '`np` must be numpy')
+            return 'Cell.missing', 'Cell'
+        if key in self.spec.get('consts', {}):
+            return self.object_const(e, key)
         if isinstance(e.value, ast.Name) and e.value.id in self.env:
             rt = self.env[e.value.id]
             key = (rt, e.attr)
@@ -450,34 +1071,80 @@ class Tr:
                 return '%s.%s' % (e.value.id, proj), t
         self.fail(e, 'attribute outside the table')
 
+    def object_const(self, e, key):
+        """`self.X` that `__init__` sets, once and unconditionally, to the literal in the type table"""
+        lit, t = self.spec['consts'][key]
+        cls = [c for c in self.module.body if isinstance(c, ast.ClassDef) and c.name == self.spec['cls']][0]
+        inits = [m for m in cls.body if isinstance(m, ast.FunctionDef) and m.name == '__init__']
+        if len(inits) != 1:
+            self.fail(e, '__init__ not found exactly once')
+        hits = [st for st in ast.walk(cls) if isinstance(st, (ast.Assign, ast.AugAssign)) and any(
+            src_of(t_) == key for t_ in (st.targets if isinstance(st, ast.Assign) else [st.target]))]
+        if len(hits) != 1 or hits[0] not in inits[0].body or not isinstance(hits[0], ast.Assign) \
+                or len(hits[0].targets) != 1 or src_of(hits[0].value) != lit:
+            self.fail(e, 'the class must set `%s = %s` exactly once, unconditionally in __init__' % (key, lit))
+        note = '%s:%d `%s` is the constant %s set by __init__' % (self.fname, hits[0].lineno, key, lit)
+        if note not in self.notes:
+            self.notes.append(note)
+        return lit, t
+
     def subscript(self, e):
         # cache read
         if isinstance(e.value, ast.Name) and self.cache and e.value.id == self.cache['name']:
             return self.cache_read(e)
         sl = e.slice
+        if isinstance(e.value, ast.Name) and e.value.id in self.spec.get('build_results', {}):
+            # `cached_data['k']` where cached_data = obj.build(…): a field of the built record
+            obj = self.spec['build_results'][e.value.id]
+            o = self.objects.get(obj)
+            if not o or not o.get('built') or o.get('result_var') != e.value.id:
+                self.fail(e, '`%s` is not the result of `%s.build(…)`' % (e.value.id, obj))
+            keys = CLASSES[o['cls']]['keys']
+            if not (isinstance(sl, ast.Constant) and sl.value in keys):
+                self.fail(e, 'key of the dict returned by build must be one of %s' % sorted(keys))
+            field = keys[sl.value]
+            return '%s.%s' % (obj, field), dict(RECORD_FIELDS[CLASSES[o['cls']]['record']])[field]
         if isinstance(sl, ast.Slice):
-            if sl.step is not None or sl.upper is None or not (
-                    isinstance(sl.lower, ast.Constant) and sl.lower.value == 0 and not isinstance(sl.lower.value, bool)):
-                self.fail(e, 'only slices `xs[0:k]` are in the table')
+            if sl.step is not None:
+                self.fail(e, 'slice with a step')
             c, t = self.expr(e.value)
             if not (isinstance(t, tuple) and t[0] == 'List'):
                 self.fail(e, 'slice of a non-list')
-            k, tk = self.expr(sl.upper)
+            zero = lambda x: x is None or (isinstance(x, ast.Constant) and x.value == 0
+                                           and not isinstance(x.value, bool))
+            full = lambda x: x is None or src_of(x) == 'len(%s)' % src_of(e.value)
+            if zero(sl.lower) and sl.upper is not None and not full(sl.upper):
+                bound, fn = sl.upper, 'pyTake'          # xs[0:k], xs[:k]
+            elif full(sl.upper) and sl.lower is not None and not zero(sl.lower):
+                bound, fn = sl.lower, 'pyDrop'          # xs[k:], xs[k:len(xs)]
+            else:
+                self.fail(e, 'only slices `xs[0:k]`, `xs[:k]`, `xs[k:]`, `xs[k:len(xs)]` are in the table')
+            k, tk = self.expr(bound)
             if tk not in ('Nat', 'Int'):
-                self.fail(sl.upper, 'slice bound must be an integer')
-            return '(pyTake %s %s)' % (c, self.coerce(sl.upper, k, tk, 'Int')), t
+                self.fail(bound, 'slice bound must be an integer')
+            return '(%s %s %s)' % (fn, c, self.coerce(bound, k, tk, 'Int')), t
         c, t = self.expr(e.value)
         if isinstance(t, tuple) and t[0] == 'Prod':
             if isinstance(sl, ast.Constant) and sl.value in (0, 1) and not isinstance(sl.value, bool):
                 return '%s.%d' % (c, sl.value + 1), t[sl.value + 1]
             self.fail(e, 'tuple index must be the constant 0 or 1')
+        if isinstance(sl, ast.UnaryOp) and isinstance(sl.op, ast.USub):
+            self.fail(sl, 'negative index (counts from the end in Python)')
         i, ti = self.expr(sl)
+        if ti == 'Int':
+            # an index the type table only knows as an int: `.toNat` (a negative index, which wraps around
+            # in Python, reads position 0 — outside the model's domain, see NOTES.md)
+            i, ti = '(%s).toNat' % i, 'Nat'
         if ti != 'Nat':
-            self.fail(sl, 'list index must have type Nat, have %s' % self.show(ti))
+            self.fail(sl, 'list index must have type Nat or Int, have %s' % self.show(ti))
         if t == 'Row':
             return '(Row.cell %s %s)' % (c, i), 'Cell'
-        if t == L('Nat'):
-            return '(%s.getD %s 0)' % (c, i), 'Nat'
+        if t == L('Row'):
+            return '(%s.getD %s [])' % (c, i), 'Row'
+        if t == L(L('Nat')):
+            return '(%s.getD %s [])' % (c, i), L('Nat')
+        if isinstance(t, tuple) and t[0] == 'List' and t[1] in ('Nat', 'τ'):
+            return '(%s.getD %s %s)' % (c, i, default_of(t[1])), t[1]
         self.fail(e, 'indexing a value of type %s is outside the table' % self.show(t))
 
     def binop(self, e):
@@ -489,9 +1156,22 @@ class Tr:
             return '(%s + %s)' % (ca, cb), t
         if isinstance(e.op, ast.Sub):
             for (c, t) in (a, b):
-                if t not in ('Nat', 'Int'):
-                    self.fail(e, 'integer operand expected')
-            return '(%s - %s)' % (self.coerce(e, a[0], a[1], 'Int'), self.coerce(e, b[0], b[1], 'Int')), 'Int'
+                if t not in ('Nat', 'Int', 'Rat'):
+                    self.fail(e, 'numeric operand expected')
+            j = 'Rat' if 'Rat' in (a[1], b[1]) else 'Int'
+            return '(%s - %s)' % (self.coerce(e, a[0], a[1], j), self.coerce(e, b[0], b[1], j)), j
+        if isinstance(e.op, ast.Mult):
+            ca, cb, t = self.numeric_join(e, a, b)
+            return '(%s * %s)' % (ca, cb), t
+        if isinstance(e.op, ast.Div) and a[1] == 'PyV' and b[1] == 'PyV':
+            return '(PyV.div %s %s)' % (a[0], b[0]), 'PyV'
+        if isinstance(e.op, ast.Div):
+            # true division: a float in Python, here the exact rational (exact as long as the operands are
+            # below 2^53 and the quotient is a dyadic rational or only floored/compared, see NOTES.md)
+            for (c, t) in (a, b):
+                if t not in ('Nat', 'Int', 'Rat'):
+                    self.fail(e, 'numeric operand expected')
+            return '(%s / %s)' % (self.coerce(e, a[0], a[1], 'Rat'), self.coerce(e, b[0], b[1], 'Rat')), 'Rat'
         self.fail(e, 'binary operator outside the table')
 
     def compare(self, e):
@@ -502,6 +1182,14 @@ class Tr:
                 self.fail(e, '`is` is only in the table against None')
             c, t = self.expr_raw_option(e.left)
             return ('%s.isNone' if isinstance(e.ops[0], ast.Is) else '%s.isSome') % c, 'Bool'
+        if len(e.ops) == 1 and isinstance(e.ops[0], (ast.In, ast.NotIn)) and isinstance(e.comparators[0], ast.List) \
+                and e.comparators[0].elts and all(isinstance(x, ast.Constant) and x.value in MEASURES
+                                                  for x in e.comparators[0].elts):
+            c, t = self.expr(e.left)
+            if t != 'Measure':
+                self.fail(e, 'membership in a list of measure names: %s' % self.show(t))
+            alts = ' || '.join('(%s == %s)' % (c, MEASURES[x.value]) for x in e.comparators[0].elts)
+            return ('(%s)' if isinstance(e.ops[0], ast.In) else '(!(%s))') % alts, 'Bool'
         vals = [self.expr(x) for x in operands]
         parts = []
         for i, op in enumerate(e.ops):
@@ -509,11 +1197,20 @@ class Tr:
             if isinstance(op, (ast.Eq, ast.NotEq)):
                 if a[1] in ('Nat', 'Int') and b[1] in ('Nat', 'Int'):
                     ca, cb, _ = self.numeric_join(e, a, b)
-                elif a[1] == b[1] and a[1] in ('String', 'Bool'):
+                elif a[1] == b[1] and a[1] in ('String', 'Bool', 'τ', 'Cell'):
                     ca, cb = a[0], b[0]
+                elif a[1] == 'Measure' and b[1] == 'String' and isinstance(operands[i + 1], ast.Constant) \
+                        and operands[i + 1].value in MEASURES:
+                    ca, cb = a[0], MEASURES[operands[i + 1].value]
+                elif isinstance(b[1], tuple) and b[1][0] == 'Option' and b[1][1] == a[1] and a[1] in ('Nat', 'String', 'τ'):
+                    ca, cb = '(some %s)' % a[0], b[0]        # x == opt
+                elif isinstance(a[1], tuple) and a[1][0] == 'Option' and a[1][1] == b[1] and b[1] in ('Nat', 'String', 'τ'):
+                    ca, cb = a[0], '(some %s)' % b[0]        # opt == x
                 else:
                     self.fail(e, '==/!= on types %s, %s is outside the table' % (self.show(a[1]), self.show(b[1])))
                 parts.append('(%s %s %s)' % (ca, '==' if isinstance(op, ast.Eq) else '!=', cb))
+            elif isinstance(op, (ast.Lt, ast.Gt)) and a[1] == 'τ' and b[1] == 'τ':
+                parts.append('decide (%s %s %s)' % (a[0], '<' if isinstance(op, ast.Lt) else '>', b[0]))
             elif isinstance(op, (ast.Lt, ast.LtE, ast.Gt, ast.GtE)):
                 ca, cb, _ = self.numeric_join(e, a, b)
                 sym = {ast.Lt: '<', ast.LtE: '≤', ast.Gt: '>', ast.GtE: '≥'}[type(op)]
@@ -554,19 +1251,42 @@ class Tr:
             return c, None
         if t == 'Row' or (isinstance(t, tuple) and t[0] in ('List', 'Dict')):
             return '(!%s.isEmpty)' % c, None
+        if t == 'Cell' and isinstance(e, ast.Name) and e.id in self.spec.get('string_cells', []):
+            # a join-attribute value already known not to be missing: a Python str, falsy iff empty
+            return '(%s.strVal != "")' % c, None
         self.fail(e, 'truth value of type %s is outside the table' % self.show(t))
 
     def call(self, e):
         if e.keywords and not (isinstance(e.func, ast.Name) and e.func.id == 'sorted'):
             self.fail(e, 'keyword arguments outside the table')
         f = e.func
+        if isinstance(f, ast.Subscript) and isinstance(f.value, ast.Name) and f.value.id == 'COMP_OP_MAP' \
+                and len(e.args) == 2:
+            # COMP_OP_MAP[op](a, b): the stage-1 generated comparison table (`compFn`)
+            if self.imports.get('COMP_OP_MAP') != ('py_stringsimjoin.utils.generic_helper', 'COMP_OP_MAP'):
+                self.fail(e, 'COMP_OP_MAP must be imported from utils.generic_helper')
+            op, top = self.expr(f.slice)
+            if top != 'String':
+                self.fail(f.slice, 'comparison operator must be a string')
+            vs = []
+            for a in e.args:
+                c, t = self.expr(a)
+                if t in ('Nat', 'Int'):
+                    c = '(PyV.int %s)' % self.coerce(a, c, t, 'Int')
+                elif t != 'PyV':
+                    self.fail(a, 'operand of a COMP_OP_MAP comparison: %s' % self.show(t))
+                vs.append(c)
+            return '(compFn %s %s %s)' % (op, vs[0], vs[1]), 'Bool'
         if isinstance(f, ast.Name):
             n = f.id
             if n == 'len' and len(e.args) == 1:
                 self.need_builtin(e, 'len')
                 c, t = self.expr(e.args[0])
-                if t == 'Row' or (isinstance(t, tuple) and t[0] in ('List', 'Dict')):
+                if t == 'Row' or (isinstance(t, tuple) and t[0] in ('List', 'Dict', 'Set')):
                     return '%s.length' % c, 'Nat'
+                if t == 'Cell':
+                    # a join-attribute value (a Python str): number of characters
+                    return '%s.strVal.length' % c, 'Nat'
                 self.fail(e, 'len of %s' % self.show(t))
             if n in ('min', 'max') and len(e.args) == 2:
                 self.need_builtin(e, n)
@@ -576,9 +1296,94 @@ class Tr:
                 return self.sorted_call(e)
             if n in CFG_CALLS:
                 return self.cfg_call(e)
+            if n == 'abs' and len(e.args) == 1:
+                self.need_builtin(e, 'abs')
+                c, t = self.expr(e.args[0])
+                if t not in ('Nat', 'Int'):
+                    self.fail(e, 'abs of %s' % self.show(t))
+                return '(intAbs %s)' % self.coerce(e, c, t, 'Int'), 'Int'
+            if n == 'floor' and len(e.args) == 1:
+                self.need_import(e, 'floor')
+                c, t = self.expr(e.args[0])
+                if t != 'Rat':
+                    self.fail(e, 'floor of %s (only of a true division)' % self.show(t))
+                return '(Rat.floor %s)' % c, 'Int'
+            if n == 'int' and len(e.args) == 1:
+                self.need_builtin(e, 'int')
+                c, t = self.expr(e.args[0])
+                if t == 'Int':
+                    return c, 'Int'
+                if t == 'Nat':
+                    return self.coerce(e, c, t, 'Int'), 'Int'
+                if t == 'Rat':
+                    return '(truncRat %s)' % c, 'Int'
+                if t == 'Bool':
+                    return '(if %s then (1 : Int) else 0)' % c, 'Int'
+                self.fail(e, 'int of %s' % self.show(t))
+            if n in self.spec.get('calls', {}):
+                return self.table_call(e, n)
+            if n in self.spec.get('fn_aliases', {}):
+                ent = self.spec['fn_aliases'][n]
+                if n not in self.aliases_bound:
+                    self.fail(e, '`%s` is called before it is bound' % n)
+                if len(e.args) != len(ent['args']):
+                    self.fail(e, 'wrong number of arguments for `%s`' % n)
+                args = [self.expr_expect(a, w) for a, w in zip(e.args, ent['args'])]
+                return ent['lean'].format(*args), ent['ret']
+            if n == 'float' and len(e.args) == 1:
+                self.need_builtin(e, 'float')
+                c, t = self.expr(e.args[0])
+                if t not in ('Nat', 'Int'):
+                    self.fail(e, 'float of %s' % self.show(t))
+                return '(PyV.toFloat (PyV.int %s))' % self.coerce(e, c, t, 'Int'), 'PyV'
+            if n == 'round' and len(e.args) == 2:
+                self.need_builtin(e, 'round')
+                c, t = self.expr(e.args[0])
+                d, td = self.expr(e.args[1])
+                if t != 'PyV' or td != 'Nat':
+                    self.fail(e, 'round(%s, %s)' % (self.show(t), self.show(td)))
+                return '(PyV.round %s (PyV.int %s))' % (c, self.coerce(e, d, td, 'Int')), 'PyV'
+            if n == 'tuple' and len(e.args) == 1:
+                self.need_builtin(e, 'tuple')
+                c, t = self.expr(e.args[0])
+                if t != 'Row':
+                    self.fail(e, 'tuple of %s' % self.show(t))
+                return c, 'Row'
+            if n == 'set' and not e.args:
+                self.need_builtin(e, 'set')
+                return '[]', 'EmptySet'
             self.fail(e, 'call outside the table')
         if isinstance(f, ast.Attribute):
             m = f.attr
+            key = src_of(f)
+            if key in self.spec.get('calls', {}):
+                return self.table_call(e, key)
+            if isinstance(f.value, ast.Name) and m in ('find_candidates', '_filter_suffix'):
+                r = self.object_method(e, f.value.id, m)
+                if r is not None:
+                    return r
+            if key == 'pd.isnull' and len(e.args) == 1:
+                self.need_import(e, 'pd')
+                c, t = self.expr(e.args[0])
+                if t != 'Cell':
+                    self.fail(e, 'pd.isnull of %s' % self.show(t))
+                return '%s.isMissing' % c, 'Bool'
+            if len(e.args) == 1 and 'tok' in self.env \
+                    and key == self.spec.get('tokenizer', 'self.tokenizer') + '.tokenize':
+                c, t = self.expr(e.args[0])
+                if t == 'Cell':
+                    # the tokenizer raises TypeError on a non-string; join-attribute cells are strings
+                    return '(tok %s.strVal)' % c, self.env['tok'][2]
+                if t == 'String':
+                    return '(tok %s)' % c, self.env['tok'][2]
+                self.fail(e, 'tokenize of %s' % self.show(t))
+            # set(xs).intersection(set(ys))
+            if m == 'intersection' and len(e.args) == 1 and self.is_set_call(f.value) and self.is_set_call(e.args[0]):
+                self.need_builtin(e, 'set')
+                (a, ta), (b, tb) = self.expr(f.value.args[0]), self.expr(e.args[0].args[0])
+                if not (isinstance(ta, tuple) and ta[0] == 'List' and ta == tb and ta[1] in ('Nat', 'String')):
+                    self.fail(e, 'set intersection of %s and %s' % (self.show(ta), self.show(tb)))
+                return '(List.filter (fun t => decide (t ∈ %s)) (dedup %s))' % (b, a), ('Set', ta[1])
             # record methods (probe)
             if isinstance(f.value, ast.Name) and f.value.id in self.env and (self.env[f.value.id], m) in METHODS:
                 rt = self.env[f.value.id]
@@ -608,6 +1413,94 @@ class Tr:
                                   'Lean returns the length)' % (self.fname, e.lineno))
                 return '(List.idxOf %s %s)' % (a, recv), 'Nat'
         self.fail(e, 'call outside the table')
+
+    def object_method(self, e, recv, m):
+        """`filter_obj.find_candidates(…)` on a filter parameter or a filter constructed in the worker"""
+        cls = self.spec.get('objects', {}).get(recv) or self.spec.get('filter_params', {}).get(recv)
+        if cls is None or recv not in self.env:
+            return None
+        key = (self.env[recv], cls, m)
+        if key not in OBJ_METHODS:
+            return None
+        templ, argts, rest = OBJ_METHODS[key]
+        if e.keywords or len(e.args) != len(argts):
+            self.fail(e, 'wrong number of arguments for `%s.%s`' % (recv, m))
+        args = [self.expr_expect(a, w) for a, w in zip(e.args, argts)]
+        return '(%s %s)' % (templ.format(recv=recv), ' '.join(args)), rest
+
+    @staticmethod
+    def is_set_call(x):
+        return isinstance(x, ast.Call) and isinstance(x.func, ast.Name) and x.func.id == 'set' \
+            and len(x.args) == 1 and not x.keywords
+
+    def table_call(self, e, key):
+        """a call of another translated function (or of a modelled library function), from the per-function
+        `calls` table: argument types are checked; `fuel` gives the extra first argument of a function that
+        is recursive in Python (template over the translated arguments, or the enclosing fuel variable)"""
+        ent = self.spec['calls'][key]
+        if e.keywords or len(e.args) != len(ent['args']):
+            self.fail(e, 'wrong number of arguments for `%s`' % key)
+        if 'import' in ent and self.imports.get(key) != ent['import']:
+            self.fail(e, '`%s` must be imported by `from %s import %s`' % (key, ent['import'][0], ent['import'][1]))
+        if 'import' not in ent and isinstance(e.func, ast.Name):
+            # a module-level function of the same file
+            defs = [d for d in self.module.body if isinstance(d, ast.FunctionDef) and d.name == key]
+            if len(defs) != 1 or key in self.imports:
+                self.fail(e, '`%s` is not a function of this module' % key)
+        args = []
+        tv = None
+        for a, want in zip(e.args, ent['args']):
+            if want == 'TOK':
+                self.cfg_source('TOK', a)
+                args.append('tok')
+                continue
+            if want == 'SKIP':
+                if not (isinstance(a, (ast.Name, ast.Constant))
+                        or (isinstance(a, ast.Attribute) and isinstance(a.value, ast.Name))):
+                    self.fail(a, 'an ignored argument must be a name or a constant')
+                continue
+            self.no_alias(a)
+            if isinstance(a, ast.List) and a.elts and isinstance(want, tuple) and want[0] == 'List':
+                c, t = self.expr(a)
+            else:
+                c, t = self.expr(a)
+            if 'τ' in repr(want) and 'τ' not in repr(self.spec.get('params')):
+                # instantiate the callee's token type at the first argument that mentions it
+                if tv is None:
+                    tv = self.match_tyvar(want, t)
+                    if tv is None:
+                        self.fail(a, 'cannot instantiate the token type of `%s` from %s' % (key, self.show(t)))
+                want = self.subst_tyvar(want, tv)
+            args.append(self.coerce(a, c, t, want))
+        ret = ent['ret']
+        if tv is not None:
+            ret = self.subst_tyvar(ret, tv)
+        pre = []
+        if 'fuel' in ent:
+            if ent['fuel'] == 'fuel' and not self.spec.get('fuel'):
+                self.fail(e, 'recursive call outside a fuel-indexed function')
+            pre.append(ent['fuel'].format(*args))
+        pre += [x for x in ent.get('pre', [])]
+        return '(%s %s)' % (ent['lean'], ' '.join(pre + args)), ret
+
+    @staticmethod
+    def match_tyvar(pattern, t):
+        if pattern == 'τ':
+            return t
+        if isinstance(pattern, tuple) and isinstance(t, tuple) and pattern[0] == t[0] and len(pattern) == len(t):
+            for p_, t_ in zip(pattern[1:], t[1:]):
+                r = Tr.match_tyvar(p_, t_)
+                if r is not None:
+                    return r
+        return None
+
+    @staticmethod
+    def subst_tyvar(t, tv):
+        if t == 'τ':
+            return tv
+        if isinstance(t, tuple):
+            return tuple(Tr.subst_tyvar(x, tv) if not isinstance(x, str) or x == 'τ' else x for x in t)
+        return t
 
     def sorted_call(self, e):
         self.need_builtin(e, 'sorted')
@@ -652,7 +1545,9 @@ class Tr:
             self.fail(e, '`%s`: the type table gives this function no filter configuration' % n)
         if len(e.args) != nnat + len(trailing) or e.keywords:
             self.fail(e, 'wrong number of arguments for `%s`' % n)
+        obj = self.spec.get('cfg_obj', 'self')
         for a, want in zip(e.args[nnat:], trailing):
+            want = obj + want[len('self'):]
             if src_of(a) != want:
                 self.fail(a, 'argument of `%s` must be `%s`' % (n, want))
         args = []
@@ -812,6 +1707,12 @@ class Tr:
         return self.expr(v)
 
     # ---- statements ------------------------------------------------------------------------------
+    def declare(self, name, t):
+        self.env[name] = t
+        self.declared.add(name)
+        if self.loop_bodies:
+            self.loop_local.setdefault(id(self.loop_bodies[-1]), set()).add(name)
+
     def emit(self, ind, line):
         self.out.append('  ' * ind + line)
 
@@ -820,10 +1721,14 @@ class Tr:
         assigned = assigned_names(body)
         for n in assigned:
             if n in self.params:
-                self.fail(self.func, 'assignment to parameter `%s` is outside the table' % n)
+                if n in self.spec.get('retype', {}) or n in self.spec.get('pandas_views', {}):
+                    continue
+                if is_mutable_type(self.params[n]) and not self.spec.get('rebind_list_params'):
+                    self.fail(self.func, 'assignment to the list/dict parameter `%s` is outside the table' % n)
+                self.rebound_params.add(n)
         for node in ast.walk(self.func):
             if isinstance(node, ast.Expr) and isinstance(node.value, ast.Call) \
-                    and isinstance(node.value.func, ast.Attribute) and node.value.func.attr in ('append', 'sort') \
+                    and isinstance(node.value.func, ast.Attribute) and node.value.func.attr in ('append', 'sort', 'add', 'update') \
                     and isinstance(node.value.func.value, ast.Name):
                 self.mutated.add(node.value.func.value.id)
             if isinstance(node, ast.Expr) and isinstance(node.value, ast.Call) \
@@ -846,9 +1751,10 @@ class Tr:
                 if isinstance(s, (ast.Assign, ast.AugAssign)):
                     tg = s.targets if isinstance(s, ast.Assign) else [s.target]
                     for t in tg:
-                        if isinstance(t, ast.Name):
-                            if isinstance(s, ast.AugAssign) or assigned.count(t.id) > 1:
-                                self.multi_assigned.add(t.id)
+                        for t in (t.elts if isinstance(t, ast.Tuple) else [t]):
+                            if isinstance(t, ast.Name):
+                                if isinstance(s, ast.AugAssign) or assigned.count(t.id) > 1:
+                                    self.multi_assigned.add(t.id)
                 elif isinstance(s, ast.For):
                     walk(s.body, True)
                 elif isinstance(s, ast.If):
@@ -875,6 +1781,10 @@ class Tr:
             if isinstance(s, ast.Assign) and len(s.targets) == 1 and isinstance(s.targets[0], ast.Name) \
                     and s.targets[0].id == name:
                 continue        # declared by the statement itself
+            if isinstance(s, ast.Assign) and len(s.targets) == 1 and isinstance(s.targets[0], ast.Tuple) \
+                    and any(isinstance(x, ast.Name) and x.id == name for x in s.targets[0].elts) \
+                    and not any(n.id == name for n in names_in(s.value)):
+                continue        # declared by the unpacking statement itself
             # does the variable occur after this statement in this block, or is it needed across
             # iterations/branches?  Either way it has to be declared here.
             later = any(self.occurs(x, name) for x in stmts[k + 1:])
@@ -894,8 +1804,7 @@ class Tr:
                                   'assignment)' % (self.fname, name, default_of(t)))
             self.emit(ind, 'let mut %s : %s := %s  -- hoisted: first bound inside the next statement' % (
                 name, lean_type(t), default_of(t)))
-            self.env[name] = t
-            self.declared.add(name)
+            self.declare(name, t)
 
     def definitely_assigned(self, stmts, name, assigned):
         """definite-assignment analysis of `name` over a statement list, starting with the given
@@ -913,6 +1822,9 @@ class Tr:
                 for t in s.targets:
                     if isinstance(t, ast.Name):
                         if t.id == name:
+                            assigned = True
+                    elif isinstance(t, ast.Tuple) and all(isinstance(x, ast.Name) for x in t.elts):
+                        if any(x.id == name for x in t.elts):
                             assigned = True
                     elif any(n.id == name for n in names_in(t)) and not assigned:
                         ok = False
@@ -995,11 +1907,53 @@ class Tr:
         saved_declared = set(self.declared)
         for k, s in enumerate(stmts):
             self.hoist_before(stmts, k, ind)
+            if self.is_retype_if(s):
+                self.retype_if(s, stmts[k + 1:], ind)
+                break
             self.stmt(s, ind, stmts, k)
         # leave scope: names declared in this block disappear
         self.env = {n: t for n, t in self.env.items() if n in saved_env}
         self.declared = {n for n in self.declared if n in saved_declared}
         self.narrowed = {n for n in saved_narrow if n in self.narrowed}
+
+    def is_retype_if(self, s):
+        rt = self.spec.get('retype')
+        if not rt or not isinstance(s, ast.If):
+            return False
+        hit = [x for x in assigned_names(s.body + s.orelse) if x in rt]
+        if not hit:
+            return False
+        ok = not s.orelse and not self.loop_vars and all(
+            isinstance(x, ast.Assign) and len(x.targets) == 1 and isinstance(x.targets[0], ast.Name)
+            and x.targets[0].id in rt and isinstance(x.value, ast.Call) and len(x.value.args) == 1
+            and src_of(x.value.args[0]) == x.targets[0].id and not x.value.keywords for x in s.body)
+        if not ok or sorted(hit) != sorted(rt) or len(hit) != len(set(hit)):
+            self.fail(s, 'a parameter whose type changes may only be rebound as `if c: x = f(x); …` '
+                         '(all such parameters, once, at the top level)')
+        return True
+
+    def retype_if(self, s, rest, ind):
+        """`if c: x = f(x)` where `f` changes the TYPE of the parameter x (a Python variable has no fixed
+        type): the rest of the block is translated twice, once under each typing"""
+        rt = self.spec['retype']
+        for x in rest:
+            if any(n in rt for n in assigned_names([x])):
+                self.fail(x, 'retyped parameter assigned again')
+        c, _ = self.truthy(s.test)
+        self.emit(ind, 'if %s then' % c)
+        saved_env, saved_params = dict(self.env), dict(self.params)
+        for x in s.body:
+            name = x.targets[0].id
+            code, t = self.expr(x.value)
+            if t != rt[name]:
+                self.fail(x, 'retyped parameter `%s`: have %s, table says %s' % (name, self.show(t), self.show(rt[name])))
+            self.emit(ind + 1, 'let %s : %s := %s' % (name, lean_type(t), code))
+        for name in rt:
+            self.env[name] = rt[name]
+        self.block(rest, ind + 1)
+        self.env = saved_env
+        self.emit(ind, 'else')
+        self.block(rest, ind + 1)
 
     def stmt(self, s, ind, stmts, k):
         if isinstance(s, ast.Expr) and isinstance(s.value, ast.Constant) and isinstance(s.value.value, str):
@@ -1010,7 +1964,7 @@ class Tr:
             if not (isinstance(s.op, ast.Add) and isinstance(s.target, ast.Name)):
                 self.fail(s, 'augmented assignment outside the table')
             name = s.target.id
-            if name not in self.env or name in self.params:
+            if name not in self.env or (name in self.params and name not in self.rebound_params):
                 self.fail(s, 'variable not in scope / not assignable')
             t = self.env[name]
             c, tc = self.expr(s.value)
@@ -1018,6 +1972,10 @@ class Tr:
                 self.fail(s, '`+=` on %s is outside the table' % self.show(t))
             self.emit(ind, '%s := %s + %s' % (name, name, self.coerce(s, c, tc, t)))
             return
+        if isinstance(s, ast.Expr) and isinstance(s.value, ast.Call) and isinstance(s.value.func, ast.Attribute) \
+                and s.value.func.attr == 'build' and isinstance(s.value.func.value, ast.Name) \
+                and s.value.func.value.id in self.spec.get('objects', {}):
+            return self.object_build(s.value, s.value.func.value.id, ind)
         if isinstance(s, ast.Expr) and isinstance(s.value, ast.Call):
             return self.method_stmt(s, ind, stmts, k)
         if isinstance(s, ast.For):
@@ -1034,8 +1992,18 @@ class Tr:
                 self.fail(s, 'bare `return` is outside the table')
             if self.spec.get('ret_record'):
                 return self.return_record(s, ind)
-            c, t = self.expr(s.value)
-            self.emit(ind, 'return %s' % self.coerce(s, c, t, self.ret))
+            if self.spec.get('dataframe_return'):
+                rows, header = self.spec['dataframe_return']
+                prev = stmts[k - 1] if k > 0 else None
+                if self.loop_vars or src_of(s) != 'return output_table' or prev is None or \
+                        src_of(prev) != 'output_table = pd.DataFrame(%s, columns=%s)' % (rows, header):
+                    self.fail(s, 'the worker must end with `output_table = pd.DataFrame(%s, columns=%s)` ; '
+                                 '`return output_table`' % (rows, header))
+                self.need_import(s, 'pd')
+                self.emit(ind, 'return (%s, %s)' % (self.var(ast.Name(id=header, ctx=ast.Load(), lineno=s.lineno, col_offset=0))[0],
+                                                     self.var(ast.Name(id=rows, ctx=ast.Load(), lineno=s.lineno, col_offset=0))[0]))
+                return
+            self.emit(ind, 'return %s' % self.expr_expect(s.value, self.ret))
             return
         self.fail(s, 'statement outside the table')
 
@@ -1043,11 +2011,18 @@ class Tr:
         if len(s.targets) != 1:
             self.fail(s, 'multiple assignment targets')
         tg = s.targets[0]
+        if isinstance(tg, ast.Tuple):
+            return self.unpack_assign(s, ind)
+        if isinstance(tg, ast.Name) and self.worker_assign(s, tg.id, ind):
+            return
         if isinstance(tg, ast.Name):
             name = tg.id
-            if name in self.params or name not in self.locals:
+            if name in self.rebound_params:
+                t = self.params[name]
+            elif name in self.params or name not in self.locals:
                 self.fail(s, 'assignment to `%s`: not a local in the type table' % name)
-            t = self.locals[name]
+            else:
+                t = self.locals[name]
             if t == 'Cache':
                 self.fail(s, 'cache variable assigned outside the recognised cache idiom')
             self.no_alias(s.value)
@@ -1055,15 +2030,19 @@ class Tr:
                     and name in self.mutated:
                 self.fail(s, 'aliasing a list/dict that is later mutated')
             c, tc = self.expr(s.value)
+            # assigning a non-None value to an Option-typed local: it is known not to be None until its
+            # next assignment (narrowing is dropped at the end of any block/loop that assigns it)
+            narrow = isinstance(t, tuple) and t[0] == 'Option' and tc == t[1]
             c = self.coerce(s, c, tc, t)
             self.narrowed.discard(name)
-            if name in self.env:
+            if narrow:
+                self.narrowed.add(name)
+            if name in self.env and (name not in self.params or name in self.declared):
                 self.emit(ind, '%s := %s' % (name, c))
             else:
                 mut = name in self.multi_assigned or name in self.mutated
                 self.emit(ind, 'let %s%s : %s := %s' % ('mut ' if mut else '', name, lean_type(t), c))
-                self.env[name] = t
-                self.declared.add(name)
+                self.declare(name, t)
             return
         if isinstance(tg, ast.Subscript) and isinstance(tg.value, ast.Name):
             name = tg.value.id
@@ -1083,6 +2062,188 @@ class Tr:
                                                         self.coerce(s, v, tv, t[2])))
             return
         self.fail(s, 'assignment target outside the table')
+
+    # ---- worker idioms: constructed objects, aliases of library functions, constants ----------------
+    def worker_assign(self, s, name, ind):
+        sp = self.spec
+        if sp.get('dataframe_return') and name == 'output_table':
+            if src_of(s) != 'output_table = pd.DataFrame(%s, columns=%s)' % sp['dataframe_return'] or self.loop_vars:
+                self.fail(s, 'DataFrame construction outside the table')
+            return True
+        if name in sp.get('pandas_views', {}):
+            # a pandas selection that is a PARAMETER of the generated function: only its source is checked
+            if src_of(s.value) != sp['pandas_views'][name] or assigned_names(self.func.body).count(name) != 1 \
+                    or self.loop_vars:
+                self.fail(s, '`%s` must be assigned exactly once: `%s`' % (name, sp['pandas_views'][name]))
+            self.need_import(s, 'pd')
+            note = '%s:%d `%s = %s` is a parameter of the generated function' % (
+                self.fname, s.lineno, name, sp['pandas_views'][name])
+            if note not in self.notes:
+                self.notes.append(note)
+            return True
+        if name in sp.get('const_locals', {}):
+            # e.g. `sim_measure_type = 'EDIT_DISTANCE'`: fixed by the table, the statement is only checked
+            if src_of(s.value) != sp['const_locals'][name] or assigned_names(self.func.body).count(name) != 1 \
+                    or self.loop_vars:
+                self.fail(s, '`%s` must be assigned exactly once, the constant %s' % (name, sp['const_locals'][name]))
+            return True
+        if name in sp.get('fn_aliases', {}):
+            ent = sp['fn_aliases'][name]
+            if src_of(s.value) != ent['src'] or assigned_names(self.func.body).count(name) != 1 or self.loop_vars:
+                self.fail(s, '`%s` must be assigned exactly once: `%s`' % (name, ent['src']))
+            for nm, imp in ent.get('imports', {}).items():
+                if self.imports.get(nm) != imp:
+                    self.fail(s, '`%s` must be imported from %s' % (nm, imp[0]))
+            self.aliases_bound.add(name)
+            return True
+        if name in sp.get('objects', {}):
+            self.object_ctor(s, name)
+            v = CLASSES[sp['objects'][name]].get('value')
+            if v:
+                t, templ = v
+                self.emit(ind, 'let %s : %s := %s' % (name, t, templ.format(**self.objects[name]['args'])))
+                self.declare(name, t)
+            return True
+        if name in sp.get('build_results', {}):
+            obj = sp['build_results'][name]
+            v = s.value
+            if not (isinstance(v, ast.Call) and isinstance(v.func, ast.Attribute) and v.func.attr == 'build'
+                    and isinstance(v.func.value, ast.Name) and v.func.value.id == obj):
+                self.fail(s, '`%s` must be assigned `%s.build(…)`' % (name, obj))
+            self.object_build(v, obj, ind, result_var=name)
+            return True
+        return False
+
+    def cfg_source(self, kind, a):
+        want = self.spec.get('cfg_sources', {}).get(kind)
+        if want is None or src_of(a) != want:
+            self.fail(a, 'this argument must be `%s` (the %s of the worker)' % (want, kind))
+
+    def object_ctor(self, s, name):
+        cls = self.spec['objects'][name]
+        C = CLASSES[cls]
+        v = s.value
+        if not (isinstance(v, ast.Call) and isinstance(v.func, ast.Name) and v.func.id == cls):
+            self.fail(s, '`%s` must be assigned `%s(…)`' % (name, cls))
+        if self.imports.get(cls) != (C['module'], cls):
+            self.fail(s, '`%s` must be imported from %s' % (cls, C['module']))
+        if name in self.objects or assigned_names(self.func.body).count(name) != 1 or self.loop_vars:
+            self.fail(s, 'object `%s` must be constructed exactly once, outside loops' % name)
+        ctor = C['ctor']
+        given = {}
+        if len(v.args) > len(ctor):
+            self.fail(v, 'too many constructor arguments')
+        for a, c in zip(v.args, ctor):
+            given[c[0]] = a
+        for kw in v.keywords:
+            if kw.arg not in [c[0] for c in ctor] or kw.arg in given:
+                self.fail(v, 'constructor keyword `%s`' % kw.arg)
+            given[kw.arg] = kw.value
+        args = {'cfg': self.spec.get('cfg', '')}
+        for c in ctor:
+            pname, kind = c[0], c[1]
+            if pname not in given:
+                if len(c) < 3:
+                    self.fail(v, 'constructor argument `%s` missing' % pname)
+                args[pname] = c[2]
+                continue
+            a = given[pname]
+            if kind in ('TOK', 'MEASURE', 'THRESHOLD'):
+                self.cfg_source(kind, a)
+                continue
+            self.no_alias(a)
+            args[pname] = self.expr_expect(a, kind)
+        self.check_ctor_signature(v, cls)
+        self.objects[name] = dict(cls=cls, args=args, built=False, node=s)
+
+    def check_ctor_signature(self, node, cls):
+        """the class's __init__ takes exactly the parameters of the table and stores each table/index/
+        ordering argument unchanged (`self.x = x`, once, unconditionally)"""
+        C = CLASSES[cls]
+        key = ('ctor', cls)
+        if key in self.checked:
+            return
+        self.checked.add(key)
+        rel = C['file']
+        src = open(os.path.join(self.spec['_repo'], rel), encoding='utf-8').read()
+        mod = ast.parse(src, filename=rel)
+        init = find_function(mod, cls, '__init__', rel)
+        names = [a.arg for a in init.args.args]
+        if names != ['self'] + [c[0] for c in C['ctor']]:
+            self.fail(node, '%s.__init__ has parameters %s, the table expects %s' % (cls, names[1:], [c[0] for c in C['ctor']]))
+        defaults = dict(zip(names[len(names) - len(init.args.defaults):], init.args.defaults))
+        for c in C['ctor']:
+            if len(c) == 3:
+                d = defaults.get(c[0])
+                lit = {'true': 'True', 'false': 'False'}.get(c[2], c[2]).replace('"', "'")
+                if d is None or src_of(d) != lit:
+                    self.fail(node, '%s.__init__: default of `%s` is expected to be %s' % (cls, c[0], lit))
+            elif c[0] in defaults:
+                self.fail(node, '%s.__init__: unexpected default for `%s`' % (cls, c[0]))
+        if 'record' in C:
+            for c in C['ctor']:
+                if c[1] in ('MEASURE', 'THRESHOLD'):
+                    continue
+                hits = [st for st in ast.walk(init) if isinstance(st, ast.Assign)
+                        and any(src_of(t) == 'self.%s' % c[0] for t in st.targets)]
+                if len(hits) != 1 or hits[0] not in init.body or src_of(hits[0].value) != c[0]:
+                    self.fail(node, '%s.__init__ must store `self.%s = %s` once, unconditionally' % (cls, c[0], c[0]))
+        self.extra_sources.append(rel)
+
+    def object_build(self, call, obj, ind, result_var=None):
+        o = self.objects.get(obj)
+        if o is None or o['built'] or self.loop_vars:
+            self.fail(call, '`%s.build(…)` must be called exactly once on a constructed object, outside loops' % obj)
+        C = CLASSES[o['cls']]
+        B = C['build']
+        given = {}
+        if len(call.args) > len(B['params']):
+            self.fail(call, 'too many arguments for build')
+        for a, pr in zip(call.args, B['params']):
+            given[pr[0]] = a
+        for kw in call.keywords:
+            if kw.arg not in [pr[0] for pr in B['params']] or kw.arg in given:
+                self.fail(call, 'build keyword `%s`' % kw.arg)
+            given[kw.arg] = kw.value
+        args = []
+        for pr in B['params']:
+            args.append(self.expr_expect(given[pr[0]], pr[1]) if pr[0] in given else pr[2])
+        pre = [x.format(**o['args']) for x in B['pre']]
+        self.emit(ind, 'let %s : %s := %s %s' % (obj, C['record'], B['lean'], ' '.join(pre + args)))
+        self.declare(obj, C['record'])
+        o['built'] = True
+        o['result_var'] = result_var
+
+    def unpack_assign(self, s, ind):
+        """`(a, b, …) = e` with `e` of an n-ary tuple type"""
+        tg = s.targets[0]
+        if not all(isinstance(x, ast.Name) for x in tg.elts):
+            self.fail(s, 'nested unpacking')
+        c, t = self.expr(s.value)
+        comps, w = [], t
+        for i in range(len(tg.elts) - 1):
+            if not (isinstance(w, tuple) and w[0] == 'Prod'):
+                self.fail(s, 'cannot unpack %s into %d names' % (self.show(t), len(tg.elts)))
+            comps.append(w[1])
+            w = w[2]
+        comps.append(w)
+        self.tmp += 1
+        tmp = 't__%d' % self.tmp
+        self.emit(ind, 'let %s := %s' % (tmp, c))
+        n = len(tg.elts)
+        for i, (x, ct) in enumerate(zip(tg.elts, comps)):
+            name = x.id
+            if name in self.params or name not in self.locals:
+                self.fail(x, 'assignment to `%s`: not a local in the type table' % name)
+            proj = tmp + '.2' * i + ('.1' if i < n - 1 else '')
+            pc = self.coerce(x, proj, ct, self.locals[name])
+            self.narrowed.discard(name)
+            if name in self.env:
+                self.emit(ind, '%s := %s' % (name, pc))
+            else:
+                mut = name in self.multi_assigned or name in self.mutated
+                self.emit(ind, 'let %s%s : %s := %s' % ('mut ' if mut else '', name, lean_type(self.locals[name]), pc))
+                self.declare(name, self.locals[name])
 
     def return_record(self, s, ind):
         """`return {'k1': v1, …}` of a method whose result record also collects the object state"""
@@ -1152,12 +2313,23 @@ class Tr:
                          'their source and must not be mutated)')
         t = self.env[name]
         if f.attr == 'append' and len(call.args) == 1 and (t == 'Row' or (isinstance(t, tuple) and t[0] == 'List')):
-            self.no_alias(call.args[0])
-            c, tc = self.expr(call.args[0])
-            self.emit(ind, '%s := %s ++ [%s]' % (name, name, self.coerce(call.args[0], c, tc, elem_type(t))))
+            self.no_alias(call.args[0], last_use=(stmts, k))
+            self.emit(ind, '%s := %s ++ [%s]' % (name, name, self.expr_expect(call.args[0], elem_type(t))))
             return
         if f.attr == 'sort' and not call.args and t == L('Nat'):
             self.emit(ind, '%s := sortNat %s' % (name, name))
+            return
+        # a Python set is modelled as the duplicate-free list of its elements in insertion order (only
+        # membership and size of a set are observable to the callers that are translated)
+        if f.attr == 'add' and len(call.args) == 1 and isinstance(t, tuple) and t[0] == 'Set':
+            c = self.expr_expect(call.args[0], t[1])
+            self.emit(ind, '%s := if %s ∈ %s then %s else %s ++ [%s]' % (name, c, name, name, name, c))
+            return
+        if f.attr == 'update' and len(call.args) == 1 and isinstance(t, tuple) and t[0] == 'Set':
+            c, tc = self.expr(call.args[0])
+            if tc != L(t[1]):
+                self.fail(s, 'set.update with %s' % self.show(tc))
+            self.emit(ind, '%s := List.foldl (fun acc a => if a ∈ acc then acc else acc ++ [a]) %s %s' % (name, name, c))
             return
         self.fail(s, 'method call statement outside the table')
 
@@ -1193,9 +2365,26 @@ class Tr:
             a, b = self.coerce(it, a, ta, 'Int'), self.coerce(it, b, tb, 'Int')
             code = '(List.map (fun (i : Nat) => %s + Int.ofNat i) (List.range (%s - %s).toNat))' % (a, b, a)
             ety = 'Int'
+        elif isinstance(it, ast.Call) and isinstance(it.func, ast.Attribute) and it.func.attr == 'itertuples' \
+                and isinstance(it.func.value, ast.Name) and it.func.value.id in self.spec.get('frames', []) \
+                and not it.args and len(it.keywords) == 1 and it.keywords[0].arg == 'index' \
+                and isinstance(it.keywords[0].value, ast.Constant) and it.keywords[0].value.value is False:
+            # the rows of a DataFrame (a parameter holding its rows)
+            code, t = self.expr(it.func.value)
+            ety = elem_type(t)
+        elif isinstance(it, ast.Call) and isinstance(it.func, ast.Name) and it.func.id == 'iteritems' \
+                and len(it.args) == 1 and not it.keywords:
+            if self.imports.get('iteritems') != ('six', 'iteritems'):
+                self.fail(it, '`iteritems` must be imported from six')
+            code, t = self.expr(it.args[0])
+            if not (isinstance(t, tuple) and t[0] == 'Dict'):
+                self.fail(it, 'iteritems of %s' % self.show(t))
+            ety = P(t[1], t[2])          # insertion order
         else:
             code, t = self.expr(it)
             ety = elem_type(t)
+            if isinstance(t, tuple) and t[0] == 'Set':
+                ety = t[1]               # insertion order of the modelled set (see NOTES.md)
             if ety is None:
                 self.fail(it, 'iteration over a value of type %s is outside the table' % self.show(t))
         # the iterated expression must not be mutated by the body
@@ -1217,7 +2406,11 @@ class Tr:
         for n in targets:
             self.env[n] = self.locals[n]
         self.loop_vars.append(set(targets))
+        self.loop_bodies.append(s.body)
+        self.narrowed -= set(assigned_names(s.body))
         self.block(s.body, ind + 1)
+        self.narrowed -= set(assigned_names(s.body))
+        self.loop_bodies.pop()
         self.loop_vars.pop()
         self.env = {n: t for n, t in self.env.items() if n in saved}
 
@@ -1258,7 +2451,9 @@ class Tr:
         saved = dict(self.env)
         self.env[view] = self.locals[view]
         self.loop_vars.append({view})
+        self.loop_bodies.append(rest)
         self.block(rest, ind + 1)
+        self.loop_bodies.pop()
         self.loop_vars.pop()
         self.env = {k: t for k, t in self.env.items() if k in saved}
 
@@ -1266,7 +2461,7 @@ class Tr:
         for s in stmts:
             for node in ast.walk(s):
                 if isinstance(node, ast.Call) and isinstance(node.func, ast.Attribute) \
-                        and node.func.attr in ('append', 'sort') and isinstance(node.func.value, ast.Name) \
+                        and node.func.attr in ('append', 'sort', 'add', 'update') and isinstance(node.func.value, ast.Name) \
                         and node.func.value.id == name:
                     return True
                 if isinstance(node, ast.Assign):
@@ -1281,11 +2476,36 @@ class Tr:
 
     def if_stmt(self, s, ind, stmts, k, kw='if'):
         test = s.test
+        if isinstance(test, ast.Name) and test.id in self.spec.get('ignore_if', []) and kw == 'if':
+            # progress bar: `if show_progress: prog_bar = pyprind.ProgBar(…)` / `prog_bar.update()`
+            def harmless(x):
+                src = src_of(x)
+                if src == 'prog_bar.update()':
+                    return True
+                def lens(a):
+                    if isinstance(a, ast.BinOp) and isinstance(a.op, ast.Add):
+                        return lens(a.left) and lens(a.right)
+                    return isinstance(a, ast.Call) and isinstance(a.func, ast.Name) and a.func.id == 'len' \
+                        and len(a.args) == 1 and isinstance(a.args[0], ast.Name) and not a.keywords
+                if isinstance(x, ast.Assign) and src.startswith('prog_bar = pyprind.ProgBar(') \
+                        and isinstance(x.value, ast.Call) and len(x.value.args) == 1 and not x.value.keywords \
+                        and lens(x.value.args[0]):
+                    return True
+                return isinstance(x, ast.Expr) and isinstance(x.value, ast.Call) and src.startswith('print(') \
+                    and len(x.value.args) == 1 and isinstance(x.value.args[0], ast.Constant)
+            ok = not s.orelse and all(harmless(x) for x in s.body)
+            if not ok:
+                self.fail(s, '`if %s:` may only guard the pyprind progress bar' % test.id)
+            note = '%s: `if %s:` progress-bar statements are ignored' % (self.fname, test.id)
+            if note not in self.notes:
+                self.notes.append(note)
+            return
         # `if x is None: … return/continue` narrows x afterwards
         narrow_after = None
         if isinstance(test, ast.Compare) and len(test.ops) == 1 and isinstance(test.ops[0], ast.Is) \
                 and isinstance(test.left, ast.Name) and not s.orelse and self.ends_in_jump(s.body):
-            if test.left.id in self.params:      # parameters are never reassigned
+            if test.left.id in self.params and test.left.id not in self.rebound_params \
+                    and test.left.id not in self.spec.get('retype', {}):      # never reassigned
                 narrow_after = test.left.id
         c, narrow_in = self.truthy(test)
         self.emit(ind, '%s %s then' % (kw, c))
@@ -1293,7 +2513,7 @@ class Tr:
         if narrow_in is not None and narrow_in not in assigned_names(s.body):
             self.narrowed.add(narrow_in)
         self.block(s.body, ind + 1)
-        self.narrowed = set(saved)
+        self.narrowed = set(saved) - set(assigned_names(s.body)) - set(assigned_names(s.orelse))
         if s.orelse:
             if len(s.orelse) == 1 and isinstance(s.orelse[0], ast.If):
                 self.if_stmt(s.orelse[0], ind, s.orelse, 0, kw='else if')
@@ -1375,24 +2595,57 @@ class Tr:
                 continue
             if isinstance(d, ast.Constant) and isinstance(d.value, bool) and self.params.get(arg.arg) == 'Bool':
                 continue
+            if arg.arg in self.spec.get('unused_params', []):
+                continue
+            if self.spec.get('unused_defaults') and isinstance(d, ast.Constant):
+                continue      # the generated function takes every argument explicitly
             self.fail(d, 'parameter default outside the table')
         for n in ast.walk(f):
             if isinstance(n, (ast.Global, ast.Nonlocal, ast.Lambda, ast.FunctionDef, ast.ClassDef,
                               ast.Yield, ast.YieldFrom, ast.Await, ast.While, ast.Try, ast.With,
                               ast.Delete, ast.Raise, ast.Assert, ast.Break, ast.ListComp, ast.DictComp,
-                              ast.SetComp, ast.GeneratorExp, ast.IfExp, ast.NamedExpr, ast.Starred)) and n is not f:
+                              ast.SetComp, ast.GeneratorExp, ast.NamedExpr, ast.Starred)) and n is not f:
                 self.fail(n, '%s is outside the table' % type(n).__name__)
+        for u in self.spec.get('unused_params', []):
+            if any(n.id == u for n in names_in(f)):
+                self.fail(f, 'parameter `%s` is declared unused in the type table but is used' % u)
         body = list(f.body)
         if self.spec.get('state'):
             body = self.object_state(body)
         self.analyse(body)
         self.env = dict(self.params)
         body = self.detect_cache(body)
-        if not body or not isinstance(body[-1], ast.Return):
-            self.fail(f, 'function body must end in `return`')
+        def ends_in_return(stmts):
+            if not stmts:
+                return False
+            last = stmts[-1]
+            if isinstance(last, ast.Return):
+                return True
+            return isinstance(last, ast.If) and ends_in_return(last.body) and ends_in_return(last.orelse)
+        if not ends_in_return(body):
+            self.fail(f, 'function body must end in `return` on every path')
         sig = ' '.join('(%s : %s)' % (p, lean_type(t)) for p, t in self.spec['params'])
-        head = 'def %s %s : %s := Id.run do' % (self.spec['lean'], sig, lean_type(self.ret))
-        self.block(body, 1)
+        if self.spec.get('tyvars'):
+            sig = self.spec['tyvars'] + ' ' + sig
+        fuel = self.spec.get('fuel')
+        ind = 2 if fuel else 1
+        for p_, t_ in self.spec['params']:
+            if p_ in self.rebound_params:
+                self.emit(ind, 'let mut %s : %s := %s' % (p_, lean_type(t_), p_))
+                self.declared.add(p_)
+        if fuel:
+            # Python recursion: structural recursion on an explicit fuel argument; when it runs out (Python:
+            # RecursionError) the value from the type table is returned
+            if 'fuel' in self.params or 'fuel' in self.locals:
+                self.fail(f, 'name clash with the fuel argument')
+            head = 'def %s %s : %s :=\n  match fuel with\n  | 0 => %s\n  | fuel + 1 => Id.run do' % (
+                self.spec['lean'], sig.replace('(', '(fuel : Nat) (', 1) if not self.spec.get('tyvars')
+                else self.spec['tyvars'] + ' (fuel : Nat) ' + sig[len(self.spec['tyvars']) + 1:],
+                lean_type(self.ret), fuel['exhausted'])
+        else:
+            head = 'def %s %s : %s := Id.run do' % (self.spec['lean'], sig, lean_type(self.ret))
+        self.top_body = body
+        self.block(body, ind)
         return head + '\n' + '\n'.join(self.out) + '\n'
 
 
@@ -1420,49 +2673,107 @@ def check_method_contract(repo, key, cache):
     body = [s for s in f.body if not (isinstance(s, ast.Expr) and isinstance(s.value, ast.Constant))]
     got = '\n'.join(ast.unparse(s) for s in body)
     args = [a.arg for a in f.args.args]
-    if got != expected or args != ['self', 'token'] or f.decorator_list:
+    if got != expected or len(args) != 2 or args[0] != 'self' or args[1] not in expected or f.decorator_list:
         raise Untranslatable('%s:%d: %s.%s is expected to be `def %s(self, token): %s` but is `%s`' % (
             rel, f.lineno, cls, key[1], key[1], expected, got))
 
 
+# generated files: name -> (imports, title, proof file)
+OUTPUTS = {
+    'Loops': (['SSJ.Model.Filters'], 'stage 2: loop helpers, typed `do`-notation', 'SSJ/Proofs/GenLoops.lean'),
+    'Loops2': (['SSJ.Gen.Loops', 'SSJ.Model.Joins'],
+               'stage 3: filters, indexes and join workers, typed `do`-notation', 'SSJ/Proofs/GenLoops2.lean'),
+}
+
+
+PRELUDE = {'Loops2': '''set_option linter.unusedVariables false
+
+/-- a Python tuple `(token, occurrence)` as built by `_number_repeated_tokens`; Python compares tuples
+    lexicographically -/
+structure NumTok where
+  tok : Nat
+  occ : Nat
+  deriving DecidableEq, Inhabited, Repr
+
+instance : LT NumTok := ⟨fun a b => a.tok < b.tok ∨ (a.tok = b.tok ∧ a.occ < b.occ)⟩
+instance : DecidableLT NumTok := fun a b =>
+  inferInstanceAs (Decidable (a.tok < b.tok ∨ (a.tok = b.tok ∧ a.occ < b.occ)))
+
+'''}
+
+
 def generate(repo):
     cache = {}
-    pieces = []
-    names = []
-    notes = []
-    used_files = []
+    outs = {}
     for spec in SPECS:
+        out = spec.get('out', 'Loops')
+        o = outs.setdefault(out, dict(pieces=[], names=[], notes=[], used=[]))
         rel = spec['file']
         if rel not in cache:
             src = open(os.path.join(repo, rel), encoding='utf-8').read()
             cache[rel] = (src, ast.parse(src, filename=rel))
-        if rel not in used_files:
-            used_files.append(rel)
+        if rel not in o['used']:
+            o['used'].append(rel)
         src, mod = cache[rel]
         func = find_function(mod, spec['cls'], spec['py'], rel)
+        spec = dict(spec, _repo=repo)
         tr = Tr(spec, rel, mod, func)
         text = tr.function()
+        for rel2 in tr.extra_sources:
+            if rel2 not in cache:
+                src2 = open(os.path.join(repo, rel2), encoding='utf-8').read()
+                cache[rel2] = (src2, ast.parse(src2, filename=rel2))
+            if rel2 not in o['used']:
+                o['used'].append(rel2)
         # method contracts of the record types this function mentions
         for (rt, m) in sorted(METHODS):
             if any(t == rt for _, t in spec['params']) and any(
                     isinstance(n, ast.Attribute) and n.attr == m for n in ast.walk(func)):
                 check_method_contract(repo, (rt, m), cache)
-                if METHODS[(rt, m)][0] not in used_files:
-                    used_files.append(METHODS[(rt, m)][0])
+                if METHODS[(rt, m)][0] not in o['used']:
+                    o['used'].append(METHODS[(rt, m)][0])
+        for rel2, cls2, name2, expected in spec.get('contracts', []):
+            check_source_contract(repo, rel2, cls2, name2, expected, cache)
+            if rel2 not in o['used']:
+                o['used'].append(rel2)
         where = '%s%s' % (spec['cls'] + '.' if spec['cls'] else '', spec['py'])
-        pieces.append('/-- `%s` (%s:%d) ↔ `%s` -/\n%s' % (where, rel, func.lineno, spec['model'], text))
-        names.append(spec['lean'])
-        notes += tr.notes
-    shas = [(rel, hashlib.sha256(cache[rel][0].encode('utf-8')).hexdigest()) for rel in used_files]
-    header = '/- GENERATED by tools/py2lean2.py (stage 2: loop helpers, typed `do`-notation) — do not edit.\n'
-    header += '   Sources:\n'
-    for rel, h in shas:
-        header += '     %s (sha256 %s)\n' % (rel, h)
-    header += '   The equality of every function below with its hand-model counterpart is proved in\n'
-    header += '   SSJ/Proofs/GenLoops.lean. -/\n'
-    header += 'import SSJ.Model.Filters\nnamespace SSJ.Gen2\nopen SSJ\n\n'
-    text = header + '\n'.join(pieces) + '\nend SSJ.Gen2\n'
-    return text, names, shas, notes
+        o['pieces'].append('/-- `%s` (%s:%d) ↔ `%s` -/\n%s' % (where, rel, func.lineno, spec['model'], text))
+        o['names'].append(spec['lean'])
+        for n in tr.notes:
+            if n not in o['notes']:
+                o['notes'].append(n)
+    files = {}
+    for out in OUTPUTS:
+        if out not in outs:
+            continue
+        o = outs[out]
+        imports, title, proofs = OUTPUTS[out]
+        shas = [(rel, hashlib.sha256(cache[rel][0].encode('utf-8')).hexdigest()) for rel in o['used']]
+        header = '/- GENERATED by tools/py2lean2.py (%s) — do not edit.\n' % title
+        header += '   Sources:\n'
+        for rel, h in shas:
+            header += '     %s (sha256 %s)\n' % (rel, h)
+        header += '   The equality of every function below with its hand-model counterpart is proved in\n'
+        header += '   %s. -/\n' % proofs
+        header += ''.join('import %s\n' % i for i in imports) + 'namespace SSJ.Gen2\nopen SSJ\n\n'
+        header += PRELUDE.get(out, '')
+        text = header + '\n'.join(o['pieces']) + '\nend SSJ.Gen2\n'
+        files[out] = (text, o['names'], shas, o['notes'])
+    return files
+
+
+def check_source_contract(repo, rel, cls, name, expected, cache):
+    """a library function that is modelled, not translated: its body must be exactly `expected`"""
+    if rel not in cache:
+        src = open(os.path.join(repo, rel), encoding='utf-8').read()
+        cache[rel] = (src, ast.parse(src, filename=rel))
+    f = find_function(cache[rel][1], cls, name, rel)
+    body = [s for s in f.body if not (isinstance(s, ast.Expr) and isinstance(s.value, ast.Constant))]
+    got = '\n'.join(ast.unparse(s) for s in body)
+    want = '\n'.join(ast.unparse(s) for s in ast.parse(expected).body)
+    if got != want or f.decorator_list:
+        raise Untranslatable('%s:%d: %s is modelled under the assumption that its body is\n%s\nbut it is\n%s' % (
+            rel, f.lineno, name, want, got))
 
 
 def main():
@@ -1472,18 +2783,19 @@ def main():
     repo, outdir = sys.argv[1], sys.argv[2]
     summary = {'files': [], 'functions': [], 'notes': [], 'error': None}
     try:
-        text, names, shas, notes = generate(repo)
+        files = generate(repo)
         os.makedirs(outdir, exist_ok=True)
-        path = os.path.join(outdir, 'Loops.lean')
-        old = open(path, encoding='utf-8').read() if os.path.exists(path) else None
-        if old != text:
-            with open(path, 'w', encoding='utf-8') as fh:
-                fh.write(text)
-        summary['files'].append({'lean': 'Loops.lean', 'changed': old != text,
-                                 'sha256': hashlib.sha256(text.encode('utf-8')).hexdigest(),
-                                 'sources': [{'source': r, 'sha256': h} for r, h in shas]})
-        summary['functions'] = names
-        summary['notes'] = notes
+        for out, (text, names, shas, notes) in files.items():
+            path = os.path.join(outdir, out + '.lean')
+            old = open(path, encoding='utf-8').read() if os.path.exists(path) else None
+            if old != text:
+                with open(path, 'w', encoding='utf-8') as fh:
+                    fh.write(text)
+            summary['files'].append({'lean': out + '.lean', 'changed': old != text,
+                                     'sha256': hashlib.sha256(text.encode('utf-8')).hexdigest(),
+                                     'sources': [{'source': r, 'sha256': h} for r, h in shas]})
+            summary['functions'] += names
+            summary['notes'] += [n for n in notes if n not in summary['notes']]
     except (Untranslatable, SyntaxError, OSError) as e:
         summary['error'] = str(e)
         print(json.dumps(summary, ensure_ascii=False))
